@@ -11,6 +11,10 @@ type nat =
 | O
 | S of nat
 
+type ('a, 'b) sum =
+| Inl of 'a
+| Inr of 'b
+
 (** val fst : ('a1 * 'a2) -> 'a1 **)
 
 let fst = function
@@ -118,6 +122,13 @@ module Coq__1 = struct
    | S p -> S (add p m)
 end
 include Coq__1
+
+(** val mul : nat -> nat -> nat **)
+
+let rec mul n0 m =
+  match n0 with
+  | O -> O
+  | S p -> add m (mul p m)
 
 (** val sub : nat -> nat -> nat **)
 
@@ -541,6 +552,14 @@ module N =
 
   let mul = Big_int_Z.mult_big_int
 
+  (** val to_nat : Big_int_Z.big_int -> nat **)
+
+  let to_nat a =
+    (fun fO fp n -> if Big_int_Z.sign_big_int n <= 0 then fO () else fp n)
+      (fun _ -> O)
+      (fun p -> Coq_Pos.to_nat p)
+      a
+
   (** val of_nat : nat -> Big_int_Z.big_int **)
 
   let of_nat = function
@@ -611,6 +630,11 @@ let n_of_ascii a =
     n_of_digits
       (a0 :: (a1 :: (a2 :: (a3 :: (a4 :: (a5 :: (a6 :: (a7 :: [])))))))))
     a
+
+(** val nat_of_ascii : char -> nat **)
+
+let nat_of_ascii a =
+  N.to_nat (n_of_ascii a)
 
 (** val hd : 'a1 -> 'a1 list -> 'a1 **)
 
@@ -1782,6 +1806,9 @@ let rnd_of = function
 | true -> RUp
 | false -> RDown
 
+type arith_meta = { aname : string; ainfo : string;
+                    areport : (string -> string -> string) }
+
 (** val nev : arith -> t -> t -> bool **)
 
 let nev a a0 b =
@@ -1821,6 +1848,18 @@ let fixed_str st v =
   | Ok f -> render_fmt st.f_display Big_int_Z.zero_big_int f
   | Raise _ -> "<exception>"
 
+(** val fixed_info : Big_int_Z.big_int -> Big_int_Z.big_int -> string **)
+
+let fixed_info p d =
+  if Z.eqb p Big_int_Z.zero_big_int
+  then "integer arithmetic"
+  else if negb (Z.eqb d p)
+       then (^) "fixed-point decimal arithmetic ("
+              ((^) (string_of_Z p)
+                ((^) " places, " ((^) (string_of_Z d) " displayed)")))
+       else (^) "fixed-point decimal arithmetic ("
+              ((^) (string_of_Z p) " places)")
+
 (** val fixed : Big_int_Z.big_int -> Big_int_Z.big_int -> arith **)
 
 let fixed p d =
@@ -1854,6 +1893,12 @@ let fixed p d =
   unres x (Obj.magic min st ((Obj.magic x) :: (Obj.magic l)))); epsilon =
   (Obj.magic Big_int_Z.unit_big_int); exact = false; str =
   (Obj.magic fixed_str st); raw_repr = (Obj.magic string_of_Z) }
+
+(** val fixedMeta : Big_int_Z.big_int -> Big_int_Z.big_int -> arith_meta **)
+
+let fixedMeta p d =
+  { aname = (if Z.eqb p Big_int_Z.zero_big_int then "integer" else "fixed");
+    ainfo = (fixed_info p (fixed_display p d)); areport = (fun _ _ -> "") }
 
 (** val mk_guarded_cls :
     Big_int_Z.big_int -> Big_int_Z.big_int -> Big_int_Z.big_int ->
@@ -1911,6 +1956,61 @@ let guarded_str st v =
     else render_fmt st.g_precision (Z.sub st.g_display st.g_precision) f
   | Raise _ -> "<exception>"
 
+(** val guarded_info :
+    Big_int_Z.big_int -> Big_int_Z.big_int -> Big_int_Z.big_int -> string **)
+
+let guarded_info p g d =
+  if negb (Z.eqb d p)
+  then (^) "guarded-precision fixed-point decimal arithmetic ("
+         ((^) (string_of_Z p)
+           ((^) "+"
+             ((^) (string_of_Z g)
+               ((^) " places; " ((^) (string_of_Z d) " displayed)")))))
+  else (^) "guarded-precision fixed-point decimal arithmetic ("
+         ((^) (string_of_Z p) ((^) "+" ((^) (string_of_Z g) " places)")))
+
+(** val tab : string **)
+
+let tab =
+  (* If this appears, you're using String internals. Please don't *)
+  (fun (c, s) -> String.make 1 c ^ s)
+
+    ((ascii_of_nat (S (S (S (S (S (S (S (S (S O)))))))))), "")
+
+(** val nl : string **)
+
+let nl =
+  (* If this appears, you're using String internals. Please don't *)
+  (fun (c, s) -> String.make 1 c ^ s)
+
+    ((ascii_of_nat (S (S (S (S (S (S (S (S (S (S O))))))))))), "")
+
+(** val guarded_report : guarded_cls -> string -> string -> string **)
+
+let guarded_report st maxd mind =
+  (^) tab
+    ((^) "maxDiff: "
+      ((^) maxd
+        ((^) "  (s/b << geps)"
+          ((^) nl
+            ((^) tab
+              ((^) "geps:    "
+                ((^) (string_of_Z st.g_geps)
+                  ((^) nl
+                    ((^) tab
+                      ((^) "minDiff: "
+                        ((^) mind
+                          ((^) "  (s/b >> geps)"
+                            ((^) nl
+                              ((^) tab
+                                ((^) "guard:   "
+                                  ((^) (string_of_Z st.g_scaleg)
+                                    ((^) nl
+                                      ((^) tab
+                                        ((^) "prec:    "
+                                          ((^) (string_of_Z st.g_scale)
+                                            ((^) nl nl)))))))))))))))))))))
+
 (** val guarded :
     Big_int_Z.big_int -> Big_int_Z.big_int -> Big_int_Z.big_int ->
     Big_int_Z.big_int -> arith **)
@@ -1947,6 +2047,15 @@ let guarded p g d stale =
   (Obj.magic Big_int_Z.unit_big_int); exact =
   (negb (Z.eqb g Big_int_Z.zero_big_int)); str = (Obj.magic guarded_str st);
   raw_repr = (Obj.magic string_of_Z) }
+
+(** val guardedMeta :
+    Big_int_Z.big_int -> Big_int_Z.big_int -> Big_int_Z.big_int ->
+    Big_int_Z.big_int -> arith_meta **)
+
+let guardedMeta p g d stale =
+  let st = mk_guarded_cls p g d stale in
+  { aname = "guarded"; ainfo = (guarded_info p g st.g_display); areport =
+  (guarded_report st) }
 
 (** val qz : q -> bool **)
 
@@ -2030,6 +2139,12 @@ let rational dp =
     (Obj.magic rational_str dp); raw_repr = (fun q0 ->
     let r = qred (Obj.magic q0) in
     (^) (string_of_Z r.qnum) ((^) "/" (string_of_Z r.qden))) }
+
+(** val rationalMeta : arith_meta **)
+
+let rationalMeta =
+  { aname = "rational"; ainfo = "rational arithmetic"; areport = (fun _ _ ->
+    "") }
 
 (** val run_asc : ('a1 -> 'a1 -> bool) -> 'a1 -> 'a1 list -> nat **)
 
@@ -7663,9 +7778,9 @@ let strip_bom text = match text with
 let parse_file text =
   parse (strip_bom text)
 
-(** val nl : string **)
+(** val nl0 : string **)
 
-let nl =
+let nl0 =
   (* If this appears, you're using String internals. Please don't *)
   (fun (c, s) -> String.make 1 c ^ s)
 
@@ -7685,7 +7800,7 @@ let show_opt = function
 (** val show_lines : ('a1 -> string) -> 'a1 list -> string **)
 
 let show_lines f l =
-  fold_right (fun x acc -> (^) (f x) ((^) nl acc)) "" l
+  fold_right (fun x acc -> (^) (f x) ((^) nl0 acc)) "" l
 
 (** val show_ranks : Big_int_Z.big_int list list -> string **)
 
@@ -7697,32 +7812,32 @@ let show_ranks r =
 let show_profile p =
   (^) "nCand "
     ((^) (string_of_Z p.p_nCand)
-      ((^) nl
+      ((^) nl0
         ((^) "nSeats "
           ((^) (string_of_Z p.p_nSeats)
-            ((^) nl
+            ((^) nl0
               ((^) "title"
                 ((^) (show_zs p.p_title)
-                  ((^) nl
+                  ((^) nl0
                     ((^) "source"
                       ((^) (show_opt p.p_source)
-                        ((^) nl
+                        ((^) nl0
                           ((^) "comment"
                             ((^) (show_opt p.p_comment)
-                              ((^) nl
+                              ((^) nl0
                                 ((^) "nBallots "
                                   ((^) (string_of_Z p.p_nBallots)
-                                    ((^) nl
+                                    ((^) nl0
                                       ((^) "eligible"
                                         ((^) (show_zs p.p_eligible)
-                                          ((^) nl
+                                          ((^) nl0
                                             ((^) "withdrawn"
                                               ((^) (show_zs p.p_withdrawn)
-                                                ((^) nl
+                                                ((^) nl0
                                                   ((^) "undeclared"
                                                     ((^)
                                                       (show_zs p.p_undeclared)
-                                                      ((^) nl
+                                                      ((^) nl0
                                                         ((^)
                                                           (show_lines
                                                             (fun pat ->
@@ -7868,6 +7983,2378 @@ let run_parse = function
         (fun _ -> "badparse")
         z0)
    | TS _ -> "badparse")
+
+(** val rd_int : tok list -> (Big_int_Z.big_int * tok list) option **)
+
+let rd_int = function
+| [] -> None
+| t0 :: t1 -> (match t0 with
+               | TI z0 -> Some (z0, t1)
+               | TS _ -> None)
+
+(** val rd_str : tok list -> (string * tok list) option **)
+
+let rd_str = function
+| [] -> None
+| t0 :: t1 -> (match t0 with
+               | TI _ -> None
+               | TS x -> Some (x, t1))
+
+(** val rd_ints :
+    nat -> tok list -> (Big_int_Z.big_int list * tok list) option **)
+
+let rec rd_ints n0 l =
+  match n0 with
+  | O -> Some ([], l)
+  | S k ->
+    (match rd_int l with
+     | Some p ->
+       let (z0, t0) = p in
+       (match rd_ints k t0 with
+        | Some p0 -> let (zs, t') = p0 in Some ((z0 :: zs), t')
+        | None -> None)
+     | None -> None)
+
+(** val rd_cand : tok list -> (pcand * tok list) option **)
+
+let rd_cand = function
+| [] -> None
+| t0 :: l0 ->
+  (match t0 with
+   | TI c ->
+     (match l0 with
+      | [] -> None
+      | t1 :: l1 ->
+        (match t1 with
+         | TI o ->
+           (match l1 with
+            | [] -> None
+            | t2 :: l2 ->
+              (match t2 with
+               | TI ti ->
+                 (match l2 with
+                  | [] -> None
+                  | t3 :: l3 ->
+                    (match t3 with
+                     | TI _ -> None
+                     | TS nm ->
+                       (match l3 with
+                        | [] -> None
+                        | t4 :: l4 ->
+                          (match t4 with
+                           | TI _ -> None
+                           | TS nk ->
+                             (match l4 with
+                              | [] -> None
+                              | t5 :: l5 ->
+                                (match t5 with
+                                 | TI w ->
+                                   (match l5 with
+                                    | [] -> None
+                                    | t6 :: t7 ->
+                                      (match t6 with
+                                       | TI u ->
+                                         Some ({ pc_cid = c; pc_order = o;
+                                           pc_tie = ti; pc_name = nm;
+                                           pc_nick = nk; pc_withdrawn =
+                                           (negb
+                                             (Z.eqb w Big_int_Z.zero_big_int));
+                                           pc_undeclared =
+                                           (negb
+                                             (Z.eqb u Big_int_Z.zero_big_int)) },
+                                           t7)
+                                       | TS _ -> None))
+                                 | TS _ -> None))))))
+               | TS _ -> None))
+         | TS _ -> None))
+   | TS _ -> None)
+
+(** val rd_many :
+    (tok list -> ('a1 * tok list) option) -> nat -> tok list -> ('a1
+    list * tok list) option **)
+
+let rec rd_many rd n0 l =
+  match n0 with
+  | O -> Some ([], l)
+  | S k ->
+    (match rd l with
+     | Some p ->
+       let (x, t0) = p in
+       (match rd_many rd k t0 with
+        | Some p0 -> let (xs, t') = p0 in Some ((x :: xs), t')
+        | None -> None)
+     | None -> None)
+
+(** val rd_ballot :
+    tok list -> ((Big_int_Z.big_int * Big_int_Z.big_int list) * tok list)
+    option **)
+
+let rd_ballot = function
+| [] -> None
+| t0 :: l0 ->
+  (match t0 with
+   | TI m ->
+     (match l0 with
+      | [] -> None
+      | t1 :: t2 ->
+        (match t1 with
+         | TI n0 ->
+           (match rd_ints (Z.to_nat n0) t2 with
+            | Some p -> let (r, t') = p in Some ((m, r), t')
+            | None -> None)
+         | TS _ -> None))
+   | TS _ -> None)
+
+(** val rd_rank : tok list -> (Big_int_Z.big_int list * tok list) option **)
+
+let rd_rank = function
+| [] -> None
+| t0 :: t1 -> (match t0 with
+               | TI n0 -> rd_ints (Z.to_nat n0) t1
+               | TS _ -> None)
+
+(** val rd_eballot :
+    tok list -> ((Big_int_Z.big_int * Big_int_Z.big_int list list) * tok
+    list) option **)
+
+let rd_eballot = function
+| [] -> None
+| t0 :: l0 ->
+  (match t0 with
+   | TI m ->
+     (match l0 with
+      | [] -> None
+      | t1 :: t2 ->
+        (match t1 with
+         | TI n0 ->
+           (match rd_many rd_rank (Z.to_nat n0) t2 with
+            | Some p -> let (r, t') = p in Some ((m, r), t')
+            | None -> None)
+         | TS _ -> None))
+   | TS _ -> None)
+
+(** val tag_name : tag -> string **)
+
+let tag_name = function
+| TBegin -> "begin"
+| TCount -> "count"
+| TLog -> "log"
+| TRound -> "round"
+| TTie -> "tie"
+| TElect -> "elect"
+| TDefeat -> "defeat"
+| TIterate -> "iterate"
+| TUnpend -> "unpend"
+| TTransfer -> "transfer"
+| TEnd -> "end"
+
+(** val state_name : cstate -> string **)
+
+let state_name = function
+| Hopeful -> "hopeful"
+| Elected -> "elected"
+| Defeated -> "defeated"
+| Withdrawn -> "withdrawn"
+
+(** val is_wigm : meth -> bool **)
+
+let is_wigm = function
+| MWigm -> true
+| _ -> false
+
+(** val code_of : meth -> cstate -> bool option -> string **)
+
+let code_of m c p =
+  match c with
+  | Hopeful -> "H"
+  | Elected ->
+    if (&&) (is_wigm m) (match p with
+                         | Some b -> b
+                         | None -> false)
+    then "e"
+    else "E"
+  | Defeated -> "D"
+  | Withdrawn -> "W"
+
+(** val lf : string **)
+
+let lf =
+  (* If this appears, you're using String internals. Please don't *)
+  (fun (c, s) -> String.make 1 c ^ s)
+
+    ((ascii_of_nat (S (S (S (S (S (S (S (S (S (S O))))))))))), "")
+
+(** val rule_of : Big_int_Z.big_int -> rule **)
+
+let rule_of z0 =
+  (fun fO fp fn z -> let s = Big_int_Z.sign_big_int z in
+  if s = 0 then fO () else if s > 0 then fp z
+  else fn (Big_int_Z.minus_big_int z))
+    (fun _ -> RWigm)
+    (fun p ->
+    (fun f2p1 f2p f1 p ->
+  if Big_int_Z.le_big_int p Big_int_Z.unit_big_int then f1 () else
+  let (q,r) = Big_int_Z.quomod_big_int p (Big_int_Z.big_int_of_int 2) in
+  if Big_int_Z.eq_big_int r Big_int_Z.zero_big_int then f2p q else f2p1 q)
+      (fun p0 ->
+      (fun f2p1 f2p f1 p ->
+  if Big_int_Z.le_big_int p Big_int_Z.unit_big_int then f1 () else
+  let (q,r) = Big_int_Z.quomod_big_int p (Big_int_Z.big_int_of_int 2) in
+  if Big_int_Z.eq_big_int r Big_int_Z.zero_big_int then f2p q else f2p1 q)
+        (fun _ -> RQpq)
+        (fun p1 ->
+        (fun f2p1 f2p f1 p ->
+  if Big_int_Z.le_big_int p Big_int_Z.unit_big_int then f1 () else
+  let (q,r) = Big_int_Z.quomod_big_int p (Big_int_Z.big_int_of_int 2) in
+  if Big_int_Z.eq_big_int r Big_int_Z.zero_big_int then f2p q else f2p1 q)
+          (fun _ -> RQpq)
+          (fun _ -> RQpq)
+          (fun _ -> RMeek)
+          p1)
+        (fun _ -> RCfer)
+        p0)
+      (fun p0 ->
+      (fun f2p1 f2p f1 p ->
+  if Big_int_Z.le_big_int p Big_int_Z.unit_big_int then f1 () else
+  let (q,r) = Big_int_Z.quomod_big_int p (Big_int_Z.big_int_of_int 2) in
+  if Big_int_Z.eq_big_int r Big_int_Z.zero_big_int then f2p q else f2p1 q)
+        (fun p1 ->
+        (fun f2p1 f2p f1 p ->
+  if Big_int_Z.le_big_int p Big_int_Z.unit_big_int then f1 () else
+  let (q,r) = Big_int_Z.quomod_big_int p (Big_int_Z.big_int_of_int 2) in
+  if Big_int_Z.eq_big_int r Big_int_Z.zero_big_int then f2p q else f2p1 q)
+          (fun _ -> RQpq)
+          (fun _ -> RQpq)
+          (fun _ -> RMeekPrf)
+          p1)
+        (fun p1 ->
+        (fun f2p1 f2p f1 p ->
+  if Big_int_Z.le_big_int p Big_int_Z.unit_big_int then f1 () else
+  let (q,r) = Big_int_Z.quomod_big_int p (Big_int_Z.big_int_of_int 2) in
+  if Big_int_Z.eq_big_int r Big_int_Z.zero_big_int then f2p q else f2p1 q)
+          (fun _ -> RQpq)
+          (fun _ -> RQpq)
+          (fun _ -> RMpls)
+          p1)
+        (fun _ -> RScotland)
+        p0)
+      (fun _ -> RWigmPrf)
+      p)
+    (fun _ -> RQpq)
+    z0
+
+(** val meth_of : rule -> meth **)
+
+let meth_of = function
+| RMeek -> MMeek
+| RMeekPrf -> MMeek
+| RQpq -> MQpq
+| _ -> MWigm
+
+type count_case = { cc_rule : rule; cc_cfg : config;
+                    cc_fuel : Big_int_Z.big_int; cc_profile : profile;
+                    cc_ar : Big_int_Z.big_int; cc_p : Big_int_Z.big_int;
+                    cc_g : Big_int_Z.big_int; cc_d : Big_int_Z.big_int;
+                    cc_stale : Big_int_Z.big_int }
+
+(** val parse_count_case : tok list -> (string, count_case) sum **)
+
+let parse_count_case = function
+| [] -> Inl "badcount"
+| t0 :: l0 ->
+  (match t0 with
+   | TI _ -> Inl "badcount"
+   | TS rname ->
+     (match l0 with
+      | [] -> Inl "badcount"
+      | t1 :: l1 ->
+        (match t1 with
+         | TI rl ->
+           (match l1 with
+            | [] -> Inl "badcount"
+            | t2 :: l2 ->
+              (match t2 with
+               | TI ar ->
+                 (match l2 with
+                  | [] -> Inl "badcount"
+                  | t3 :: l3 ->
+                    (match t3 with
+                     | TI p ->
+                       (match l3 with
+                        | [] -> Inl "badcount"
+                        | t4 :: l4 ->
+                          (match t4 with
+                           | TI g ->
+                             (match l4 with
+                              | [] -> Inl "badcount"
+                              | t5 :: l5 ->
+                                (match t5 with
+                                 | TI d ->
+                                   (match l5 with
+                                    | [] -> Inl "badcount"
+                                    | t6 :: l6 ->
+                                      (match t6 with
+                                       | TI stale ->
+                                         (match l6 with
+                                          | [] -> Inl "badcount"
+                                          | t7 :: l7 ->
+                                            (match t7 with
+                                             | TI om ->
+                                               (match l7 with
+                                                | [] -> Inl "badcount"
+                                                | t8 :: l8 ->
+                                                  (match t8 with
+                                                   | TI iq ->
+                                                     (match l8 with
+                                                      | [] -> Inl "badcount"
+                                                      | t9 :: l9 ->
+                                                        (match t9 with
+                                                         | TI bz ->
+                                                           (match l9 with
+                                                            | [] ->
+                                                              Inl "badcount"
+                                                            | t10 :: l10 ->
+                                                              (match t10 with
+                                                               | TI bt ->
+                                                                 (match l10 with
+                                                                  | [] ->
+                                                                    Inl
+                                                                    "badcount"
+                                                                  | t11 :: l11 ->
+                                                                    (match t11 with
+                                                                    | TI wa ->
+                                                                    (match l11 with
+                                                                    | [] ->
+                                                                    Inl
+                                                                    "badcount"
+                                                                    | t12 :: l12 ->
+                                                                    (match t12 with
+                                                                    | TI fb ->
+                                                                    (match l12 with
+                                                                    | [] ->
+                                                                    Inl
+                                                                    "badcount"
+                                                                    | t13 :: l13 ->
+                                                                    (match t13 with
+                                                                    | TI ns ->
+                                                                    (match l13 with
+                                                                    | [] ->
+                                                                    Inl
+                                                                    "badcount"
+                                                                    | t14 :: l14 ->
+                                                                    (match t14 with
+                                                                    | TI nb ->
+                                                                    (match l14 with
+                                                                    | [] ->
+                                                                    Inl
+                                                                    "badcount"
+                                                                    | t15 :: rest ->
+                                                                    (match t15 with
+                                                                    | TI nc ->
+                                                                    (match 
+                                                                    rd_many
+                                                                    rd_cand
+                                                                    (Z.to_nat
+                                                                    nc) rest with
+                                                                    | Some p0 ->
+                                                                    let (
+                                                                    cs, rest1) =
+                                                                    p0
+                                                                    in
+                                                                    (
+                                                                    match rest1 with
+                                                                    | [] ->
+                                                                    Inl
+                                                                    "badballots"
+                                                                    | t16 :: rest2 ->
+                                                                    (match t16 with
+                                                                    | TI nbl ->
+                                                                    (match 
+                                                                    rd_many
+                                                                    rd_ballot
+                                                                    (Z.to_nat
+                                                                    nbl) rest2 with
+                                                                    | Some p1 ->
+                                                                    let (
+                                                                    bs, rest3) =
+                                                                    p1
+                                                                    in
+                                                                    (
+                                                                    match rest3 with
+                                                                    | [] ->
+                                                                    Inl
+                                                                    "badeballots"
+                                                                    | t17 :: rest4 ->
+                                                                    (match t17 with
+                                                                    | TI nebl ->
+                                                                    (match 
+                                                                    rd_many
+                                                                    rd_eballot
+                                                                    (Z.to_nat
+                                                                    nebl)
+                                                                    rest4 with
+                                                                    | Some p2 ->
+                                                                    let (
+                                                                    ebs, _) =
+                                                                    p2
+                                                                    in
+                                                                    let r =
+                                                                    rule_of rl
+                                                                    in
+                                                                    let cfg =
+                                                                    { cf_rule =
+                                                                    rname;
+                                                                    cf_method =
+                                                                    (meth_of
+                                                                    r);
+                                                                    cf_nseats =
+                                                                    ns;
+                                                                    cf_nballots =
+                                                                    nb;
+                                                                    cf_integer_quota =
+                                                                    (negb
+                                                                    (Z.eqb iq
+                                                                    Big_int_Z.zero_big_int));
+                                                                    cf_batch_zero =
+                                                                    (negb
+                                                                    (Z.eqb bz
+                                                                    Big_int_Z.zero_big_int));
+                                                                    cf_batch =
+                                                                    (negb
+                                                                    (Z.eqb bt
+                                                                    Big_int_Z.zero_big_int));
+                                                                    cf_warren =
+                                                                    (negb
+                                                                    (Z.eqb wa
+                                                                    Big_int_Z.zero_big_int));
+                                                                    cf_omega10 =
+                                                                    om }
+                                                                    in
+                                                                    let pr =
+                                                                    { pr_nseats =
+                                                                    ns;
+                                                                    pr_nballots =
+                                                                    nb;
+                                                                    pr_cands =
+                                                                    cs;
+                                                                    pr_ballots =
+                                                                    bs;
+                                                                    pr_eballots =
+                                                                    ebs }
+                                                                    in
+                                                                    let fuel =
+                                                                    Coq_Pos.pow
+                                                                    (Big_int_Z.mult_int_big_int 2
+                                                                    Big_int_Z.unit_big_int)
+                                                                    (Z.to_pos
+                                                                    fb)
+                                                                    in
+                                                                    Inr
+                                                                    { cc_rule =
+                                                                    r;
+                                                                    cc_cfg =
+                                                                    cfg;
+                                                                    cc_fuel =
+                                                                    fuel;
+                                                                    cc_profile =
+                                                                    pr;
+                                                                    cc_ar =
+                                                                    ar;
+                                                                    cc_p = p;
+                                                                    cc_g = g;
+                                                                    cc_d = d;
+                                                                    cc_stale =
+                                                                    stale }
+                                                                    | None ->
+                                                                    Inl
+                                                                    "badeballots")
+                                                                    | TS _ ->
+                                                                    Inl
+                                                                    "badeballots"))
+                                                                    | None ->
+                                                                    Inl
+                                                                    "badballots")
+                                                                    | TS _ ->
+                                                                    Inl
+                                                                    "badballots"))
+                                                                    | None ->
+                                                                    Inl
+                                                                    "badcands")
+                                                                    | TS _ ->
+                                                                    Inl
+                                                                    "badcount"))
+                                                                    | TS _ ->
+                                                                    Inl
+                                                                    "badcount"))
+                                                                    | TS _ ->
+                                                                    Inl
+                                                                    "badcount"))
+                                                                    | TS _ ->
+                                                                    Inl
+                                                                    "badcount"))
+                                                                    | TS _ ->
+                                                                    Inl
+                                                                    "badcount"))
+                                                               | TS _ ->
+                                                                 Inl
+                                                                   "badcount"))
+                                                         | TS _ ->
+                                                           Inl "badcount"))
+                                                   | TS _ -> Inl "badcount"))
+                                             | TS _ -> Inl "badcount"))
+                                       | TS _ -> Inl "badcount"))
+                                 | TS _ -> Inl "badcount"))
+                           | TS _ -> Inl "badcount"))
+                     | TS _ -> Inl "badcount"))
+               | TS _ -> Inl "badcount"))
+         | TS _ -> Inl "badcount")))
+
+type json =
+| JNull
+| JBool of bool
+| JInt of Big_int_Z.big_int
+| JStr of string
+| JList of json list
+| JObj of (string * json) list
+
+type header = { h_title : string; h_droop_name : string;
+                h_droop_version : string; h_rule_info : string;
+                h_arith_info : string; h_unused : string list;
+                h_overridden : string list; h_quota_name : string;
+                h_omega : string option; h_source : string option;
+                h_comment : string option; h_maxdiff : string;
+                h_mindiff : string; h_options : json }
+
+(** val z_of_ascii : char -> Big_int_Z.big_int **)
+
+let z_of_ascii c =
+  Z.of_nat (nat_of_ascii c)
+
+(** val ascii_of_Z : Big_int_Z.big_int -> char **)
+
+let ascii_of_Z z0 =
+  ascii_of_nat (Z.to_nat z0)
+
+(** val str1 : Big_int_Z.big_int -> string **)
+
+let str1 z0 =
+  (* If this appears, you're using String internals. Please don't *)
+  (fun (c, s) -> String.make 1 c ^ s)
+
+    ((ascii_of_Z z0), "")
+
+(** val utf8_decode : Big_int_Z.big_int list -> Big_int_Z.big_int list **)
+
+let rec utf8_decode = function
+| [] -> []
+| b :: t0 ->
+  if Z.ltb b (Big_int_Z.mult_int_big_int 2 (Big_int_Z.mult_int_big_int 2
+       (Big_int_Z.mult_int_big_int 2 (Big_int_Z.mult_int_big_int 2
+       (Big_int_Z.mult_int_big_int 2 (Big_int_Z.mult_int_big_int 2
+       (Big_int_Z.mult_int_big_int 2 Big_int_Z.unit_big_int)))))))
+  then b :: (utf8_decode t0)
+  else if (&&)
+            (Z.leb (Big_int_Z.mult_int_big_int 2
+              (Big_int_Z.mult_int_big_int 2 (Big_int_Z.mult_int_big_int 2
+              (Big_int_Z.mult_int_big_int 2 (Big_int_Z.mult_int_big_int 2
+              (Big_int_Z.mult_int_big_int 2
+              ((fun x -> Big_int_Z.succ_big_int (Big_int_Z.mult_int_big_int 2 x))
+              Big_int_Z.unit_big_int))))))) b)
+            (Z.ltb b (Big_int_Z.mult_int_big_int 2
+              (Big_int_Z.mult_int_big_int 2 (Big_int_Z.mult_int_big_int 2
+              (Big_int_Z.mult_int_big_int 2 (Big_int_Z.mult_int_big_int 2
+              ((fun x -> Big_int_Z.succ_big_int (Big_int_Z.mult_int_big_int 2 x))
+              ((fun x -> Big_int_Z.succ_big_int (Big_int_Z.mult_int_big_int 2 x))
+              Big_int_Z.unit_big_int))))))))
+       then (match t0 with
+             | [] -> b :: (utf8_decode t0)
+             | b1 :: t1 ->
+               (Z.add
+                 (Z.mul
+                   (Z.sub b (Big_int_Z.mult_int_big_int 2
+                     (Big_int_Z.mult_int_big_int 2
+                     (Big_int_Z.mult_int_big_int 2
+                     (Big_int_Z.mult_int_big_int 2
+                     (Big_int_Z.mult_int_big_int 2
+                     (Big_int_Z.mult_int_big_int 2
+                     ((fun x -> Big_int_Z.succ_big_int (Big_int_Z.mult_int_big_int 2 x))
+                     Big_int_Z.unit_big_int))))))))
+                   (Big_int_Z.mult_int_big_int 2
+                   (Big_int_Z.mult_int_big_int 2
+                   (Big_int_Z.mult_int_big_int 2
+                   (Big_int_Z.mult_int_big_int 2
+                   (Big_int_Z.mult_int_big_int 2
+                   (Big_int_Z.mult_int_big_int 2 Big_int_Z.unit_big_int)))))))
+                 (Z.sub b1 (Big_int_Z.mult_int_big_int 2
+                   (Big_int_Z.mult_int_big_int 2
+                   (Big_int_Z.mult_int_big_int 2
+                   (Big_int_Z.mult_int_big_int 2
+                   (Big_int_Z.mult_int_big_int 2
+                   (Big_int_Z.mult_int_big_int 2
+                   (Big_int_Z.mult_int_big_int 2
+                   Big_int_Z.unit_big_int))))))))) :: (utf8_decode t1))
+       else if (&&)
+                 (Z.leb (Big_int_Z.mult_int_big_int 2
+                   (Big_int_Z.mult_int_big_int 2
+                   (Big_int_Z.mult_int_big_int 2
+                   (Big_int_Z.mult_int_big_int 2
+                   (Big_int_Z.mult_int_big_int 2
+                   ((fun x -> Big_int_Z.succ_big_int (Big_int_Z.mult_int_big_int 2 x))
+                   ((fun x -> Big_int_Z.succ_big_int (Big_int_Z.mult_int_big_int 2 x))
+                   Big_int_Z.unit_big_int))))))) b)
+                 (Z.ltb b (Big_int_Z.mult_int_big_int 2
+                   (Big_int_Z.mult_int_big_int 2
+                   (Big_int_Z.mult_int_big_int 2
+                   (Big_int_Z.mult_int_big_int 2
+                   ((fun x -> Big_int_Z.succ_big_int (Big_int_Z.mult_int_big_int 2 x))
+                   ((fun x -> Big_int_Z.succ_big_int (Big_int_Z.mult_int_big_int 2 x))
+                   ((fun x -> Big_int_Z.succ_big_int (Big_int_Z.mult_int_big_int 2 x))
+                   Big_int_Z.unit_big_int))))))))
+            then (match t0 with
+                  | [] -> b :: (utf8_decode t0)
+                  | b1 :: l0 ->
+                    (match l0 with
+                     | [] -> b :: (utf8_decode t0)
+                     | b2 :: t2 ->
+                       (Z.add
+                         (Z.add
+                           (Z.mul
+                             (Z.sub b (Big_int_Z.mult_int_big_int 2
+                               (Big_int_Z.mult_int_big_int 2
+                               (Big_int_Z.mult_int_big_int 2
+                               (Big_int_Z.mult_int_big_int 2
+                               (Big_int_Z.mult_int_big_int 2
+                               ((fun x -> Big_int_Z.succ_big_int (Big_int_Z.mult_int_big_int 2 x))
+                               ((fun x -> Big_int_Z.succ_big_int (Big_int_Z.mult_int_big_int 2 x))
+                               Big_int_Z.unit_big_int))))))))
+                             (Big_int_Z.mult_int_big_int 2
+                             (Big_int_Z.mult_int_big_int 2
+                             (Big_int_Z.mult_int_big_int 2
+                             (Big_int_Z.mult_int_big_int 2
+                             (Big_int_Z.mult_int_big_int 2
+                             (Big_int_Z.mult_int_big_int 2
+                             (Big_int_Z.mult_int_big_int 2
+                             (Big_int_Z.mult_int_big_int 2
+                             (Big_int_Z.mult_int_big_int 2
+                             (Big_int_Z.mult_int_big_int 2
+                             (Big_int_Z.mult_int_big_int 2
+                             (Big_int_Z.mult_int_big_int 2
+                             Big_int_Z.unit_big_int)))))))))))))
+                           (Z.mul
+                             (Z.sub b1 (Big_int_Z.mult_int_big_int 2
+                               (Big_int_Z.mult_int_big_int 2
+                               (Big_int_Z.mult_int_big_int 2
+                               (Big_int_Z.mult_int_big_int 2
+                               (Big_int_Z.mult_int_big_int 2
+                               (Big_int_Z.mult_int_big_int 2
+                               (Big_int_Z.mult_int_big_int 2
+                               Big_int_Z.unit_big_int))))))))
+                             (Big_int_Z.mult_int_big_int 2
+                             (Big_int_Z.mult_int_big_int 2
+                             (Big_int_Z.mult_int_big_int 2
+                             (Big_int_Z.mult_int_big_int 2
+                             (Big_int_Z.mult_int_big_int 2
+                             (Big_int_Z.mult_int_big_int 2
+                             Big_int_Z.unit_big_int))))))))
+                         (Z.sub b2 (Big_int_Z.mult_int_big_int 2
+                           (Big_int_Z.mult_int_big_int 2
+                           (Big_int_Z.mult_int_big_int 2
+                           (Big_int_Z.mult_int_big_int 2
+                           (Big_int_Z.mult_int_big_int 2
+                           (Big_int_Z.mult_int_big_int 2
+                           (Big_int_Z.mult_int_big_int 2
+                           Big_int_Z.unit_big_int))))))))) :: (utf8_decode t2)))
+            else if Z.leb (Big_int_Z.mult_int_big_int 2
+                      (Big_int_Z.mult_int_big_int 2
+                      (Big_int_Z.mult_int_big_int 2
+                      (Big_int_Z.mult_int_big_int 2
+                      ((fun x -> Big_int_Z.succ_big_int (Big_int_Z.mult_int_big_int 2 x))
+                      ((fun x -> Big_int_Z.succ_big_int (Big_int_Z.mult_int_big_int 2 x))
+                      ((fun x -> Big_int_Z.succ_big_int (Big_int_Z.mult_int_big_int 2 x))
+                      Big_int_Z.unit_big_int))))))) b
+                 then (match t0 with
+                       | [] -> b :: (utf8_decode t0)
+                       | b1 :: l0 ->
+                         (match l0 with
+                          | [] -> b :: (utf8_decode t0)
+                          | b2 :: l1 ->
+                            (match l1 with
+                             | [] -> b :: (utf8_decode t0)
+                             | b3 :: t3 ->
+                               (Z.add
+                                 (Z.add
+                                   (Z.add
+                                     (Z.mul
+                                       (Z.sub b (Big_int_Z.mult_int_big_int 2
+                                         (Big_int_Z.mult_int_big_int 2
+                                         (Big_int_Z.mult_int_big_int 2
+                                         (Big_int_Z.mult_int_big_int 2
+                                         ((fun x -> Big_int_Z.succ_big_int (Big_int_Z.mult_int_big_int 2 x))
+                                         ((fun x -> Big_int_Z.succ_big_int (Big_int_Z.mult_int_big_int 2 x))
+                                         ((fun x -> Big_int_Z.succ_big_int (Big_int_Z.mult_int_big_int 2 x))
+                                         Big_int_Z.unit_big_int))))))))
+                                       (Big_int_Z.mult_int_big_int 2
+                                       (Big_int_Z.mult_int_big_int 2
+                                       (Big_int_Z.mult_int_big_int 2
+                                       (Big_int_Z.mult_int_big_int 2
+                                       (Big_int_Z.mult_int_big_int 2
+                                       (Big_int_Z.mult_int_big_int 2
+                                       (Big_int_Z.mult_int_big_int 2
+                                       (Big_int_Z.mult_int_big_int 2
+                                       (Big_int_Z.mult_int_big_int 2
+                                       (Big_int_Z.mult_int_big_int 2
+                                       (Big_int_Z.mult_int_big_int 2
+                                       (Big_int_Z.mult_int_big_int 2
+                                       (Big_int_Z.mult_int_big_int 2
+                                       (Big_int_Z.mult_int_big_int 2
+                                       (Big_int_Z.mult_int_big_int 2
+                                       (Big_int_Z.mult_int_big_int 2
+                                       (Big_int_Z.mult_int_big_int 2
+                                       (Big_int_Z.mult_int_big_int 2
+                                       Big_int_Z.unit_big_int)))))))))))))))))))
+                                     (Z.mul
+                                       (Z.sub b1
+                                         (Big_int_Z.mult_int_big_int 2
+                                         (Big_int_Z.mult_int_big_int 2
+                                         (Big_int_Z.mult_int_big_int 2
+                                         (Big_int_Z.mult_int_big_int 2
+                                         (Big_int_Z.mult_int_big_int 2
+                                         (Big_int_Z.mult_int_big_int 2
+                                         (Big_int_Z.mult_int_big_int 2
+                                         Big_int_Z.unit_big_int))))))))
+                                       (Big_int_Z.mult_int_big_int 2
+                                       (Big_int_Z.mult_int_big_int 2
+                                       (Big_int_Z.mult_int_big_int 2
+                                       (Big_int_Z.mult_int_big_int 2
+                                       (Big_int_Z.mult_int_big_int 2
+                                       (Big_int_Z.mult_int_big_int 2
+                                       (Big_int_Z.mult_int_big_int 2
+                                       (Big_int_Z.mult_int_big_int 2
+                                       (Big_int_Z.mult_int_big_int 2
+                                       (Big_int_Z.mult_int_big_int 2
+                                       (Big_int_Z.mult_int_big_int 2
+                                       (Big_int_Z.mult_int_big_int 2
+                                       Big_int_Z.unit_big_int))))))))))))))
+                                   (Z.mul
+                                     (Z.sub b2 (Big_int_Z.mult_int_big_int 2
+                                       (Big_int_Z.mult_int_big_int 2
+                                       (Big_int_Z.mult_int_big_int 2
+                                       (Big_int_Z.mult_int_big_int 2
+                                       (Big_int_Z.mult_int_big_int 2
+                                       (Big_int_Z.mult_int_big_int 2
+                                       (Big_int_Z.mult_int_big_int 2
+                                       Big_int_Z.unit_big_int))))))))
+                                     (Big_int_Z.mult_int_big_int 2
+                                     (Big_int_Z.mult_int_big_int 2
+                                     (Big_int_Z.mult_int_big_int 2
+                                     (Big_int_Z.mult_int_big_int 2
+                                     (Big_int_Z.mult_int_big_int 2
+                                     (Big_int_Z.mult_int_big_int 2
+                                     Big_int_Z.unit_big_int))))))))
+                                 (Z.sub b3 (Big_int_Z.mult_int_big_int 2
+                                   (Big_int_Z.mult_int_big_int 2
+                                   (Big_int_Z.mult_int_big_int 2
+                                   (Big_int_Z.mult_int_big_int 2
+                                   (Big_int_Z.mult_int_big_int 2
+                                   (Big_int_Z.mult_int_big_int 2
+                                   (Big_int_Z.mult_int_big_int 2
+                                   Big_int_Z.unit_big_int))))))))) :: 
+                                 (utf8_decode t3))))
+                 else b :: (utf8_decode t0)
+
+(** val hexdigit : Big_int_Z.big_int -> string **)
+
+let hexdigit z0 =
+  if Z.ltb z0 (Big_int_Z.mult_int_big_int 2
+       ((fun x -> Big_int_Z.succ_big_int (Big_int_Z.mult_int_big_int 2 x))
+       (Big_int_Z.mult_int_big_int 2 Big_int_Z.unit_big_int)))
+  then str1
+         (Z.add (Big_int_Z.mult_int_big_int 2 (Big_int_Z.mult_int_big_int 2
+           (Big_int_Z.mult_int_big_int 2 (Big_int_Z.mult_int_big_int 2
+           ((fun x -> Big_int_Z.succ_big_int (Big_int_Z.mult_int_big_int 2 x))
+           Big_int_Z.unit_big_int))))) z0)
+  else str1
+         (Z.add
+           ((fun x -> Big_int_Z.succ_big_int (Big_int_Z.mult_int_big_int 2 x))
+           ((fun x -> Big_int_Z.succ_big_int (Big_int_Z.mult_int_big_int 2 x))
+           ((fun x -> Big_int_Z.succ_big_int (Big_int_Z.mult_int_big_int 2 x))
+           (Big_int_Z.mult_int_big_int 2
+           ((fun x -> Big_int_Z.succ_big_int (Big_int_Z.mult_int_big_int 2 x))
+           (Big_int_Z.mult_int_big_int 2 Big_int_Z.unit_big_int)))))) z0)
+
+(** val hex4 : Big_int_Z.big_int -> string **)
+
+let hex4 z0 =
+  (^)
+    (hexdigit
+      (Z.modulo
+        (Z.div z0 (Big_int_Z.mult_int_big_int 2 (Big_int_Z.mult_int_big_int 2
+          (Big_int_Z.mult_int_big_int 2 (Big_int_Z.mult_int_big_int 2
+          (Big_int_Z.mult_int_big_int 2 (Big_int_Z.mult_int_big_int 2
+          (Big_int_Z.mult_int_big_int 2 (Big_int_Z.mult_int_big_int 2
+          (Big_int_Z.mult_int_big_int 2 (Big_int_Z.mult_int_big_int 2
+          (Big_int_Z.mult_int_big_int 2 (Big_int_Z.mult_int_big_int 2
+          Big_int_Z.unit_big_int))))))))))))) (Big_int_Z.mult_int_big_int 2
+        (Big_int_Z.mult_int_big_int 2 (Big_int_Z.mult_int_big_int 2
+        (Big_int_Z.mult_int_big_int 2 Big_int_Z.unit_big_int))))))
+    ((^)
+      (hexdigit
+        (Z.modulo
+          (Z.div z0 (Big_int_Z.mult_int_big_int 2
+            (Big_int_Z.mult_int_big_int 2 (Big_int_Z.mult_int_big_int 2
+            (Big_int_Z.mult_int_big_int 2 (Big_int_Z.mult_int_big_int 2
+            (Big_int_Z.mult_int_big_int 2 (Big_int_Z.mult_int_big_int 2
+            (Big_int_Z.mult_int_big_int 2 Big_int_Z.unit_big_int)))))))))
+          (Big_int_Z.mult_int_big_int 2 (Big_int_Z.mult_int_big_int 2
+          (Big_int_Z.mult_int_big_int 2 (Big_int_Z.mult_int_big_int 2
+          Big_int_Z.unit_big_int))))))
+      ((^)
+        (hexdigit
+          (Z.modulo
+            (Z.div z0 (Big_int_Z.mult_int_big_int 2
+              (Big_int_Z.mult_int_big_int 2 (Big_int_Z.mult_int_big_int 2
+              (Big_int_Z.mult_int_big_int 2 Big_int_Z.unit_big_int)))))
+            (Big_int_Z.mult_int_big_int 2 (Big_int_Z.mult_int_big_int 2
+            (Big_int_Z.mult_int_big_int 2 (Big_int_Z.mult_int_big_int 2
+            Big_int_Z.unit_big_int))))))
+        (hexdigit
+          (Z.modulo z0 (Big_int_Z.mult_int_big_int 2
+            (Big_int_Z.mult_int_big_int 2 (Big_int_Z.mult_int_big_int 2
+            (Big_int_Z.mult_int_big_int 2 Big_int_Z.unit_big_int))))))))
+
+(** val bslash : string **)
+
+let bslash =
+  str1 (Big_int_Z.mult_int_big_int 2 (Big_int_Z.mult_int_big_int 2
+    ((fun x -> Big_int_Z.succ_big_int (Big_int_Z.mult_int_big_int 2 x))
+    ((fun x -> Big_int_Z.succ_big_int (Big_int_Z.mult_int_big_int 2 x))
+    ((fun x -> Big_int_Z.succ_big_int (Big_int_Z.mult_int_big_int 2 x))
+    (Big_int_Z.mult_int_big_int 2 Big_int_Z.unit_big_int))))))
+
+(** val dquote : string **)
+
+let dquote =
+  str1 (Big_int_Z.mult_int_big_int 2
+    ((fun x -> Big_int_Z.succ_big_int (Big_int_Z.mult_int_big_int 2 x))
+    (Big_int_Z.mult_int_big_int 2 (Big_int_Z.mult_int_big_int 2
+    (Big_int_Z.mult_int_big_int 2 Big_int_Z.unit_big_int)))))
+
+(** val esc_cp : Big_int_Z.big_int -> string **)
+
+let esc_cp cp =
+  if Z.eqb cp (Big_int_Z.mult_int_big_int 2
+       ((fun x -> Big_int_Z.succ_big_int (Big_int_Z.mult_int_big_int 2 x))
+       (Big_int_Z.mult_int_big_int 2 (Big_int_Z.mult_int_big_int 2
+       (Big_int_Z.mult_int_big_int 2 Big_int_Z.unit_big_int)))))
+  then (^) bslash dquote
+  else if Z.eqb cp (Big_int_Z.mult_int_big_int 2
+            (Big_int_Z.mult_int_big_int 2
+            ((fun x -> Big_int_Z.succ_big_int (Big_int_Z.mult_int_big_int 2 x))
+            ((fun x -> Big_int_Z.succ_big_int (Big_int_Z.mult_int_big_int 2 x))
+            ((fun x -> Big_int_Z.succ_big_int (Big_int_Z.mult_int_big_int 2 x))
+            (Big_int_Z.mult_int_big_int 2 Big_int_Z.unit_big_int))))))
+       then (^) bslash bslash
+       else if Z.eqb cp (Big_int_Z.mult_int_big_int 2
+                 ((fun x -> Big_int_Z.succ_big_int (Big_int_Z.mult_int_big_int 2 x))
+                 (Big_int_Z.mult_int_big_int 2 Big_int_Z.unit_big_int)))
+            then (^) bslash "n"
+            else if Z.eqb cp
+                      ((fun x -> Big_int_Z.succ_big_int (Big_int_Z.mult_int_big_int 2 x))
+                      (Big_int_Z.mult_int_big_int 2
+                      ((fun x -> Big_int_Z.succ_big_int (Big_int_Z.mult_int_big_int 2 x))
+                      Big_int_Z.unit_big_int)))
+                 then (^) bslash "r"
+                 else if Z.eqb cp
+                           ((fun x -> Big_int_Z.succ_big_int (Big_int_Z.mult_int_big_int 2 x))
+                           (Big_int_Z.mult_int_big_int 2
+                           (Big_int_Z.mult_int_big_int 2
+                           Big_int_Z.unit_big_int)))
+                      then (^) bslash "t"
+                      else if Z.eqb cp (Big_int_Z.mult_int_big_int 2
+                                (Big_int_Z.mult_int_big_int 2
+                                (Big_int_Z.mult_int_big_int 2
+                                Big_int_Z.unit_big_int)))
+                           then (^) bslash "b"
+                           else if Z.eqb cp (Big_int_Z.mult_int_big_int 2
+                                     (Big_int_Z.mult_int_big_int 2
+                                     ((fun x -> Big_int_Z.succ_big_int (Big_int_Z.mult_int_big_int 2 x))
+                                     Big_int_Z.unit_big_int)))
+                                then (^) bslash "f"
+                                else if (&&)
+                                          (Z.leb
+                                            (Big_int_Z.mult_int_big_int 2
+                                            (Big_int_Z.mult_int_big_int 2
+                                            (Big_int_Z.mult_int_big_int 2
+                                            (Big_int_Z.mult_int_big_int 2
+                                            (Big_int_Z.mult_int_big_int 2
+                                            Big_int_Z.unit_big_int))))) cp)
+                                          (Z.leb cp
+                                            (Big_int_Z.mult_int_big_int 2
+                                            ((fun x -> Big_int_Z.succ_big_int (Big_int_Z.mult_int_big_int 2 x))
+                                            ((fun x -> Big_int_Z.succ_big_int (Big_int_Z.mult_int_big_int 2 x))
+                                            ((fun x -> Big_int_Z.succ_big_int (Big_int_Z.mult_int_big_int 2 x))
+                                            ((fun x -> Big_int_Z.succ_big_int (Big_int_Z.mult_int_big_int 2 x))
+                                            ((fun x -> Big_int_Z.succ_big_int (Big_int_Z.mult_int_big_int 2 x))
+                                            Big_int_Z.unit_big_int)))))))
+                                     then str1 cp
+                                     else if Z.ltb cp
+                                               (Big_int_Z.mult_int_big_int 2
+                                               (Big_int_Z.mult_int_big_int 2
+                                               (Big_int_Z.mult_int_big_int 2
+                                               (Big_int_Z.mult_int_big_int 2
+                                               (Big_int_Z.mult_int_big_int 2
+                                               (Big_int_Z.mult_int_big_int 2
+                                               (Big_int_Z.mult_int_big_int 2
+                                               (Big_int_Z.mult_int_big_int 2
+                                               (Big_int_Z.mult_int_big_int 2
+                                               (Big_int_Z.mult_int_big_int 2
+                                               (Big_int_Z.mult_int_big_int 2
+                                               (Big_int_Z.mult_int_big_int 2
+                                               (Big_int_Z.mult_int_big_int 2
+                                               (Big_int_Z.mult_int_big_int 2
+                                               (Big_int_Z.mult_int_big_int 2
+                                               (Big_int_Z.mult_int_big_int 2
+                                               Big_int_Z.unit_big_int))))))))))))))))
+                                          then (^) bslash ((^) "u" (hex4 cp))
+                                          else let n0 =
+                                                 Z.sub cp
+                                                   (Big_int_Z.mult_int_big_int 2
+                                                   (Big_int_Z.mult_int_big_int 2
+                                                   (Big_int_Z.mult_int_big_int 2
+                                                   (Big_int_Z.mult_int_big_int 2
+                                                   (Big_int_Z.mult_int_big_int 2
+                                                   (Big_int_Z.mult_int_big_int 2
+                                                   (Big_int_Z.mult_int_big_int 2
+                                                   (Big_int_Z.mult_int_big_int 2
+                                                   (Big_int_Z.mult_int_big_int 2
+                                                   (Big_int_Z.mult_int_big_int 2
+                                                   (Big_int_Z.mult_int_big_int 2
+                                                   (Big_int_Z.mult_int_big_int 2
+                                                   (Big_int_Z.mult_int_big_int 2
+                                                   (Big_int_Z.mult_int_big_int 2
+                                                   (Big_int_Z.mult_int_big_int 2
+                                                   (Big_int_Z.mult_int_big_int 2
+                                                   Big_int_Z.unit_big_int))))))))))))))))
+                                               in
+                                               (^) bslash
+                                                 ((^) "u"
+                                                   ((^)
+                                                     (hex4
+                                                       (Z.add
+                                                         (Big_int_Z.mult_int_big_int 2
+                                                         (Big_int_Z.mult_int_big_int 2
+                                                         (Big_int_Z.mult_int_big_int 2
+                                                         (Big_int_Z.mult_int_big_int 2
+                                                         (Big_int_Z.mult_int_big_int 2
+                                                         (Big_int_Z.mult_int_big_int 2
+                                                         (Big_int_Z.mult_int_big_int 2
+                                                         (Big_int_Z.mult_int_big_int 2
+                                                         (Big_int_Z.mult_int_big_int 2
+                                                         (Big_int_Z.mult_int_big_int 2
+                                                         (Big_int_Z.mult_int_big_int 2
+                                                         ((fun x -> Big_int_Z.succ_big_int (Big_int_Z.mult_int_big_int 2 x))
+                                                         ((fun x -> Big_int_Z.succ_big_int (Big_int_Z.mult_int_big_int 2 x))
+                                                         (Big_int_Z.mult_int_big_int 2
+                                                         ((fun x -> Big_int_Z.succ_big_int (Big_int_Z.mult_int_big_int 2 x))
+                                                         Big_int_Z.unit_big_int)))))))))))))))
+                                                         (Z.modulo
+                                                           (Z.div n0
+                                                             (Big_int_Z.mult_int_big_int 2
+                                                             (Big_int_Z.mult_int_big_int 2
+                                                             (Big_int_Z.mult_int_big_int 2
+                                                             (Big_int_Z.mult_int_big_int 2
+                                                             (Big_int_Z.mult_int_big_int 2
+                                                             (Big_int_Z.mult_int_big_int 2
+                                                             (Big_int_Z.mult_int_big_int 2
+                                                             (Big_int_Z.mult_int_big_int 2
+                                                             (Big_int_Z.mult_int_big_int 2
+                                                             (Big_int_Z.mult_int_big_int 2
+                                                             Big_int_Z.unit_big_int)))))))))))
+                                                           (Big_int_Z.mult_int_big_int 2
+                                                           (Big_int_Z.mult_int_big_int 2
+                                                           (Big_int_Z.mult_int_big_int 2
+                                                           (Big_int_Z.mult_int_big_int 2
+                                                           (Big_int_Z.mult_int_big_int 2
+                                                           (Big_int_Z.mult_int_big_int 2
+                                                           (Big_int_Z.mult_int_big_int 2
+                                                           (Big_int_Z.mult_int_big_int 2
+                                                           (Big_int_Z.mult_int_big_int 2
+                                                           (Big_int_Z.mult_int_big_int 2
+                                                           Big_int_Z.unit_big_int)))))))))))))
+                                                     ((^) bslash
+                                                       ((^) "u"
+                                                         (hex4
+                                                           (Z.add
+                                                             (Big_int_Z.mult_int_big_int 2
+                                                             (Big_int_Z.mult_int_big_int 2
+                                                             (Big_int_Z.mult_int_big_int 2
+                                                             (Big_int_Z.mult_int_big_int 2
+                                                             (Big_int_Z.mult_int_big_int 2
+                                                             (Big_int_Z.mult_int_big_int 2
+                                                             (Big_int_Z.mult_int_big_int 2
+                                                             (Big_int_Z.mult_int_big_int 2
+                                                             (Big_int_Z.mult_int_big_int 2
+                                                             (Big_int_Z.mult_int_big_int 2
+                                                             ((fun x -> Big_int_Z.succ_big_int (Big_int_Z.mult_int_big_int 2 x))
+                                                             ((fun x -> Big_int_Z.succ_big_int (Big_int_Z.mult_int_big_int 2 x))
+                                                             ((fun x -> Big_int_Z.succ_big_int (Big_int_Z.mult_int_big_int 2 x))
+                                                             (Big_int_Z.mult_int_big_int 2
+                                                             ((fun x -> Big_int_Z.succ_big_int (Big_int_Z.mult_int_big_int 2 x))
+                                                             Big_int_Z.unit_big_int)))))))))))))))
+                                                             (Z.modulo n0
+                                                               (Big_int_Z.mult_int_big_int 2
+                                                               (Big_int_Z.mult_int_big_int 2
+                                                               (Big_int_Z.mult_int_big_int 2
+                                                               (Big_int_Z.mult_int_big_int 2
+                                                               (Big_int_Z.mult_int_big_int 2
+                                                               (Big_int_Z.mult_int_big_int 2
+                                                               (Big_int_Z.mult_int_big_int 2
+                                                               (Big_int_Z.mult_int_big_int 2
+                                                               (Big_int_Z.mult_int_big_int 2
+                                                               (Big_int_Z.mult_int_big_int 2
+                                                               Big_int_Z.unit_big_int)))))))))))))))))
+
+(** val json_string : string -> string **)
+
+let json_string s =
+  (^) dquote
+    ((^)
+      (String.concat ""
+        (map esc_cp
+          (utf8_decode
+            (map z_of_ascii
+              ((fun s ->
+      Array.to_list (Array.init (String.length s) (fun i -> s.[i])))
+                s))))) dquote)
+
+(** val spaces : nat -> string **)
+
+let rec spaces = function
+| O -> ""
+| S k ->
+  (* If this appears, you're using String internals. Please don't *)
+  (fun (c, s) -> String.make 1 c ^ s)
+
+    (' ', (spaces k))
+
+(** val nlind : nat -> string **)
+
+let nlind n0 =
+  (^) nl (spaces (mul (S (S O)) n0))
+
+(** val json_pieces : nat -> json -> string list **)
+
+let rec json_pieces ind = function
+| JNull -> "null" :: []
+| JBool b -> if b then "true" :: [] else "false" :: []
+| JInt z0 -> (string_of_Z z0) :: []
+| JStr s -> (json_string s) :: []
+| JList l ->
+  (match l with
+   | [] -> "[]" :: []
+   | _ :: _ ->
+     "[" :: ((nlind (S ind)) :: (app
+                                  (let rec items = function
+                                   | [] -> []
+                                   | x :: t0 ->
+                                     app (json_pieces (S ind) x)
+                                       (match t0 with
+                                        | [] -> []
+                                        | _ :: _ ->
+                                          "," :: ((nlind (S ind)) :: 
+                                            (items t0)))
+                                   in items l) ((nlind ind) :: ("]" :: [])))))
+| JObj l ->
+  (match l with
+   | [] -> "{}" :: []
+   | _ :: _ ->
+     "{" :: ((nlind (S ind)) :: (app
+                                  (let rec items = function
+                                   | [] -> []
+                                   | p :: t0 ->
+                                     let (k, x) = p in
+                                     (json_string k) :: (": " :: (app
+                                                                   (json_pieces
+                                                                    (S ind) x)
+                                                                   (match t0 with
+                                                                    | [] -> []
+                                                                    | _ :: _ ->
+                                                                    "," :: (
+                                                                    (nlind (S
+                                                                    ind)) :: 
+                                                                    (items t0)))))
+                                   in items l) ((nlind ind) :: ("}" :: [])))))
+
+(** val json_text_of : json -> string **)
+
+let json_text_of j =
+  String.concat "" (json_pieces O j)
+
+(** val is_short_tag : tag -> bool **)
+
+let is_short_tag = function
+| TLog -> true
+| TRound -> true
+| TIterate -> true
+| _ -> false
+
+(** val is_fill_tag : tag -> bool **)
+
+let is_fill_tag = function
+| TBegin -> true
+| TCount -> true
+| TRound -> true
+| _ -> false
+
+(** val is_end_tag : tag -> bool **)
+
+let is_end_tag = function
+| TEnd -> true
+| _ -> false
+
+(** val lists_cands : tag -> bool **)
+
+let lists_cands = function
+| TLog -> false
+| TRound -> false
+| TTie -> false
+| TIterate -> false
+| TUnpend -> false
+| _ -> true
+
+(** val qpq_own : tag -> bool **)
+
+let qpq_own = function
+| TCount -> false
+| TLog -> false
+| TRound -> false
+| TIterate -> false
+| TUnpend -> false
+| _ -> true
+
+(** val is_tie : tag -> bool **)
+
+let is_tie = function
+| TTie -> true
+| _ -> false
+
+(** val pend_true : bool option -> bool **)
+
+let pend_true = function
+| Some b -> b
+| None -> false
+
+(** val sv : arith -> t -> string **)
+
+let sv a v =
+  a.str v
+
+(** val sov : arith -> t option -> string **)
+
+let sov a = function
+| Some v -> a.str v
+| None -> "None"
+
+(** val lookup_sn :
+    arith -> csnap list -> Big_int_Z.big_int -> csnap option **)
+
+let lookup_sn _ l i =
+  find (fun c -> Z.eqb c.sn_cid i) l
+
+(** val name_of : arith -> cand list -> Big_int_Z.big_int -> string **)
+
+let name_of a cs i =
+  match find_cand a cs i with
+  | Some c -> c.cname
+  | None -> "?"
+
+(** val all_cids : arith -> est -> Big_int_Z.big_int list **)
+
+let all_cids a s =
+  map (fun c -> c.cid) (by_order a s.cands)
+
+(** val elig_cids : arith -> est -> Big_int_Z.big_int list **)
+
+let elig_cids a s =
+  map (fun c -> c.cid) (by_order a (eligibles a s))
+
+(** val record_actions : arith -> est -> action list **)
+
+let record_actions _ s =
+  rev0 s.actions
+
+(** val fill_quota : arith -> est -> t **)
+
+let fill_quota a s =
+  match find (fun a0 -> is_fill_tag a0.a_tag) (record_actions a s) with
+  | Some a0 -> (match a0.a_snap with
+                | Some sn -> sn.as_quota
+                | None -> s.quota)
+  | None -> s.quota
+
+(** val arith_report :
+    arith -> arith_meta -> header -> est -> string option **)
+
+let arith_report _ m h s =
+  let r = m.areport h.h_maxdiff h.h_mindiff in
+  if (&&) (existsb (fun a -> is_end_tag a.a_tag) s.actions) (negb ((=) r ""))
+  then Some r
+  else None
+
+(** val dump_rule_header : config -> string list **)
+
+let dump_rule_header cfg =
+  match cfg.cf_method with
+  | MWigm -> "Non-Transferable" :: []
+  | MMeek -> "Votes" :: ("Surplus" :: ("Residual" :: []))
+  | MQpq -> []
+
+(** val dump_cid_header : config -> Big_int_Z.big_int -> string list **)
+
+let dump_cid_header cfg i =
+  let c = string_of_Z i in
+  app (((^) c ".name") :: (((^) c ".state") :: []))
+    (match cfg.cf_method with
+     | MWigm -> ((^) c ".vote") :: []
+     | MMeek -> ((^) c ".vote") :: (((^) c ".kf") :: [])
+     | MQpq -> ((^) c ".quotient") :: [])
+
+(** val dump_header : config -> Big_int_Z.big_int list -> string list **)
+
+let dump_header cfg ecids =
+  app ("R" :: ("Action" :: ("Quota" :: [])))
+    (app (dump_rule_header cfg) (flat_map (dump_cid_header cfg) ecids))
+
+(** val dump_rule_cells : arith -> config -> asnap -> string list **)
+
+let dump_rule_cells a cfg sn =
+  match cfg.cf_method with
+  | MWigm -> (sov a sn.as_nt) :: []
+  | MMeek ->
+    (sv a sn.as_votes) :: ((sov a sn.as_surplus) :: ((sov a sn.as_nt) :: []))
+  | MQpq -> []
+
+(** val dump_value_cells : arith -> config -> csnap -> string list **)
+
+let dump_value_cells a cfg c =
+  match cfg.cf_method with
+  | MWigm -> (sv a c.sn_vote) :: []
+  | MMeek -> (sv a c.sn_vote) :: ((sov a c.sn_kf) :: [])
+  | MQpq -> (sov a c.sn_quo) :: []
+
+(** val dump_missing_cells : config -> string list **)
+
+let dump_missing_cells cfg =
+  match cfg.cf_method with
+  | MMeek -> "?" :: ("?" :: [])
+  | _ -> "?" :: []
+
+(** val dump_cand_cells :
+    arith -> config -> cand list -> asnap -> Big_int_Z.big_int -> string list **)
+
+let dump_cand_cells a cfg cs sn i =
+  match lookup_sn a sn.as_c i with
+  | Some c ->
+    app
+      ((name_of a cs i) :: ((code_of cfg.cf_method c.sn_st c.sn_pend) :: []))
+      (dump_value_cells a cfg c)
+  | None -> app ((name_of a cs i) :: ("?" :: [])) (dump_missing_cells cfg)
+
+(** val dump_short_row : arith -> action -> string list **)
+
+let dump_short_row _ a =
+  (string_of_Z a.a_round) :: ((tag_name a.a_tag) :: (a.a_msg :: []))
+
+(** val dump_row :
+    arith -> config -> cand list -> Big_int_Z.big_int list -> action ->
+    string list **)
+
+let dump_row a cfg cs ecids a0 =
+  if is_short_tag a0.a_tag
+  then dump_short_row a a0
+  else (match a0.a_snap with
+        | Some sn ->
+          app
+            ((if is_end_tag a0.a_tag then "X" else string_of_Z a0.a_round) :: (
+            (tag_name a0.a_tag) :: ((sv a sn.as_quota) :: [])))
+            (app (dump_rule_cells a cfg sn)
+              (flat_map (dump_cand_cells a cfg cs sn) ecids))
+        | None -> dump_short_row a a0)
+
+(** val dump_table : arith -> config -> est -> string list list **)
+
+let dump_table a cfg s =
+  (dump_header cfg (elig_cids a s)) :: (map
+                                         (dump_row a cfg s.cands
+                                           (elig_cids a s))
+                                         (record_actions a s))
+
+(** val dump_line : string list -> string **)
+
+let dump_line r =
+  (^) (String.concat tab r) nl
+
+(** val dump_text : arith -> config -> est -> string **)
+
+let dump_text a cfg s =
+  String.concat "" (map dump_line (dump_table a cfg s))
+
+(** val ordered_snaps :
+    arith -> Big_int_Z.big_int list -> asnap -> csnap list **)
+
+let ordered_snaps a cids sn =
+  flat_map (fun i ->
+    match lookup_sn a sn.as_c i with
+    | Some c -> c :: []
+    | None -> []) cids
+
+(** val sn_in : arith -> cstate -> csnap -> bool **)
+
+let sn_in _ st c =
+  cstate_eqb c.sn_st st
+
+(** val cand_line :
+    arith -> cand list -> string -> (csnap -> string) -> csnap -> string **)
+
+let cand_line a cs label val0 c =
+  (^) tab
+    ((^) label
+      ((^) (name_of a cs c.sn_cid) ((^) " (" ((^) (val0 c) ((^) ")" nl)))))
+
+(** val vote_str : arith -> csnap -> string **)
+
+let vote_str a c =
+  sv a c.sn_vote
+
+(** val quo_str : arith -> csnap -> string **)
+
+let quo_str a c =
+  sov a c.sn_quo
+
+(** val elected_np : arith -> csnap list -> csnap list **)
+
+let elected_np a l =
+  filter (fun c -> (&&) (sn_in a Elected c) (negb (pend_true c.sn_pend))) l
+
+(** val elected_p : arith -> csnap list -> csnap list **)
+
+let elected_p a l =
+  filter (fun c -> (&&) (sn_in a Elected c) (pend_true c.sn_pend)) l
+
+(** val hopeful_sn : arith -> csnap list -> csnap list **)
+
+let hopeful_sn a l =
+  filter (sn_in a Hopeful) l
+
+(** val defeated_sn : arith -> csnap list -> csnap list **)
+
+let defeated_sn a l =
+  filter (sn_in a Defeated) l
+
+(** val defeated_pos : arith -> csnap list -> csnap list **)
+
+let defeated_pos a l =
+  filter (fun c -> a.gtv c.sn_vote (a.of_int Big_int_Z.zero_big_int))
+    (defeated_sn a l)
+
+(** val defeated_zero : arith -> csnap list -> csnap list **)
+
+let defeated_zero a l =
+  filter (fun c -> a.eqv c.sn_vote (a.of_int Big_int_Z.zero_big_int))
+    (defeated_sn a l)
+
+(** val zero_defeated_line : arith -> cand list -> csnap list -> string **)
+
+let zero_defeated_line a cs z0 =
+  (^) tab
+    ((^) "Defeated: "
+      ((^) (String.concat ", " (map (fun c -> name_of a cs c.sn_cid) z0))
+        ((^) " (" ((^) (sv a (a.of_int Big_int_Z.zero_big_int)) ((^) ")" nl)))))
+
+(** val default_cand_lines :
+    arith -> cand list -> csnap list -> string list **)
+
+let default_cand_lines a cs l =
+  app (map (cand_line a cs "Elected:  " (vote_str a)) (elected_np a l))
+    (app (map (cand_line a cs "Pending:  " (vote_str a)) (elected_p a l))
+      (app (map (cand_line a cs "Hopeful:  " (vote_str a)) (hopeful_sn a l))
+        (app
+          (map (cand_line a cs "Defeated: " (vote_str a)) (defeated_pos a l))
+          (match defeated_zero a l with
+           | [] -> []
+           | c :: l0 -> (zero_defeated_line a cs (c :: l0)) :: []))))
+
+(** val wigm_append :
+    arith -> config -> t -> string -> csnap list -> string list **)
+
+let wigm_append a cfg nt surp l =
+  let votes_of = fun x -> vsum a (map (fun c -> c.sn_vote) x) in
+  let h_votes = votes_of (hopeful_sn a l) in
+  let d_votes = votes_of (defeated_sn a l) in
+  let e_votes = votes_of (elected_np a l) in
+  let p_votes = votes_of (elected_p a l) in
+  let total =
+    a.add0 (a.add0 (a.add0 (a.add0 e_votes p_votes) h_votes) d_votes) nt
+  in
+  let resid = a.sub0 (a.of_int cfg.cf_nballots) total in
+  app (((^) tab ((^) "Elected votes: " ((^) (sv a e_votes) nl))) :: [])
+    (app
+      (if a.truth p_votes
+       then ((^) tab ((^) "Pending votes: " ((^) (sv a p_votes) nl))) :: []
+       else [])
+      (app (((^) tab ((^) "Hopeful votes: " ((^) (sv a h_votes) nl))) :: [])
+        (app
+          (if a.truth d_votes
+           then ((^) tab ((^) "Defeated votes: " ((^) (sv a d_votes) nl))) :: []
+           else [])
+          (((^) tab ((^) "Nontransferable votes: " ((^) (sv a nt) nl))) :: (
+          ((^) tab ((^) "Residual: " ((^) (sv a resid) nl))) :: (((^) tab
+                                                                   ((^)
+                                                                    "Total: "
+                                                                    ((^)
+                                                                    (sv a
+                                                                    (a.add0
+                                                                    total
+                                                                    resid))
+                                                                    nl))) :: (
+          ((^) tab ((^) "Surplus: " ((^) surp nl))) :: [])))))))
+
+(** val meek_append : arith -> header -> asnap -> string list **)
+
+let meek_append a h sn =
+  ((^) tab ((^) h.h_quota_name ((^) ": " ((^) (sv a sn.as_quota) nl)))) :: (
+    ((^) tab ((^) "Votes: " ((^) (sv a sn.as_votes) nl))) :: (((^) tab
+                                                                ((^)
+                                                                  "Residual: "
+                                                                  ((^)
+                                                                    (sov a
+                                                                    sn.as_nt)
+                                                                    nl))) :: (
+    ((^) tab
+      ((^) "Total: "
+        ((^)
+          (match sn.as_nt with
+           | Some r -> sv a (a.add0 sn.as_votes r)
+           | None -> "None") nl))) :: (((^) tab
+                                         ((^) "Surplus: "
+                                           ((^) (sov a sn.as_surplus) nl))) :: []))))
+
+(** val action_append :
+    arith -> config -> header -> asnap -> csnap list -> string list **)
+
+let action_append a cfg h sn l =
+  match cfg.cf_method with
+  | MWigm ->
+    wigm_append a cfg
+      (match sn.as_nt with
+       | Some v -> v
+       | None -> a.of_int Big_int_Z.zero_big_int) (sov a sn.as_surplus) l
+  | MMeek -> meek_append a h sn
+  | MQpq -> []
+
+(** val qpq_cand_lines : arith -> cand list -> csnap list -> string list **)
+
+let qpq_cand_lines a cs l =
+  app
+    (map (cand_line a cs "Elected:  " (quo_str a))
+      (filter (sn_in a Elected) l))
+    (app (map (cand_line a cs "Hopeful:  " (quo_str a)) (hopeful_sn a l))
+      (map (cand_line a cs "Defeated: " (quo_str a)) (defeated_sn a l)))
+
+(** val qpq_section : config -> tag -> bool **)
+
+let qpq_section cfg t0 =
+  match cfg.cf_method with
+  | MQpq -> qpq_own t0
+  | _ -> false
+
+(** val block_cand_lines :
+    arith -> config -> cand list -> Big_int_Z.big_int list -> action -> asnap
+    -> string list **)
+
+let block_cand_lines a cfg cs cids a0 sn =
+  let l = ordered_snaps a cids sn in
+  if qpq_section cfg a0.a_tag
+  then if is_tie a0.a_tag then [] else qpq_cand_lines a cs l
+  else if lists_cands a0.a_tag then default_cand_lines a cs l else []
+
+(** val report_action :
+    arith -> config -> header -> cand list -> Big_int_Z.big_int list ->
+    action -> string list **)
+
+let report_action a cfg h cs cids a0 =
+  match a0.a_tag with
+  | TLog -> ((^) tab ((^) a0.a_msg nl)) :: []
+  | TRound -> ((^) "Round " ((^) (string_of_Z a0.a_round) ((^) ":" nl))) :: []
+  | _ ->
+    (match a0.a_snap with
+     | Some sn ->
+       app (((^) "Action: " ((^) a0.a_msg nl)) :: [])
+         (app (block_cand_lines a cfg cs cids a0 sn)
+           (if qpq_section cfg a0.a_tag
+            then ((^) tab
+                   ((^) h.h_quota_name ((^) ": " ((^) (sv a sn.as_quota) nl)))) :: []
+            else action_append a cfg h sn (ordered_snaps a cids sn)))
+     | None -> ((^) "Action: " ((^) a0.a_msg nl)) :: [])
+
+(** val opt_line : string -> string option -> string -> string list **)
+
+let opt_line pre o post =
+  match o with
+  | Some x -> ((^) pre ((^) x post)) :: []
+  | None -> []
+
+(** val report_header : arith -> config -> header -> est -> string list **)
+
+let report_header a cfg h s =
+  app
+    (((^) nl ((^) "Election: " ((^) h.h_title ((^) nl nl)))) :: (((^) tab
+                                                                   ((^)
+                                                                    "Droop package: "
+                                                                    ((^)
+                                                                    h.h_droop_name
+                                                                    ((^) " v"
+                                                                    ((^)
+                                                                    h.h_droop_version
+                                                                    nl))))) :: (
+    ((^) tab ((^) "Rule: " ((^) h.h_rule_info nl))) :: (((^) tab
+                                                          ((^) "Arithmetic: "
+                                                            ((^)
+                                                              h.h_arith_info
+                                                              nl))) :: []))))
+    (app
+      (match h.h_unused with
+       | [] -> []
+       | s0 :: l ->
+         ((^) tab
+           ((^) "Unused options: " ((^) (String.concat ", " (s0 :: l)) nl))) :: [])
+      (app
+        (match h.h_overridden with
+         | [] -> []
+         | s0 :: l ->
+           ((^) tab
+             ((^) "Overridden options: "
+               ((^) (String.concat ", " (s0 :: l)) nl))) :: [])
+        (app
+          (((^) tab ((^) "Seats: " ((^) (string_of_Z cfg.cf_nseats) nl))) :: (
+          ((^) tab ((^) "Ballots: " ((^) (string_of_Z cfg.cf_nballots) nl))) :: (
+          ((^) tab
+            ((^) h.h_quota_name ((^) ": " ((^) (sv a (fill_quota a s)) nl)))) :: [])))
+          (app
+            (match cfg.cf_method with
+             | MMeek ->
+               ((^) tab
+                 ((^) "Omega: "
+                   ((^) (match h.h_omega with
+                         | Some o -> o
+                         | None -> "None") nl))) :: []
+             | _ -> [])
+            (app (opt_line "Source: " h.h_source nl)
+              (app (opt_line "{" h.h_comment ((^) "}" nl)) (nl :: [])))))))
+
+(** val report_pieces :
+    arith -> arith_meta -> config -> header -> bool -> est -> string list **)
+
+let report_pieces a m cfg h intr s =
+  app (report_header a cfg h s)
+    (app (opt_line "" (arith_report a m h s) "")
+      (app
+        (if intr
+         then ((^) tab
+                ((^) "** Count terminated prematurely by user interrupt **"
+                  ((^) nl nl))) :: []
+         else [])
+        (flat_map (report_action a cfg h s.cands (all_cids a s))
+          (record_actions a s))))
+
+(** val report_text :
+    arith -> arith_meta -> config -> header -> bool -> est -> string **)
+
+let report_text a m cfg h intr s =
+  String.concat "" (report_pieces a m cfg h intr s)
+
+(** val jov : arith -> string -> t option -> (string * json) list **)
+
+let jov a k = function
+| Some v -> (k, (JStr (sv a v))) :: []
+| None -> []
+
+(** val json_cstate_entry : arith -> config -> csnap -> json **)
+
+let json_cstate_entry a cfg c =
+  match c.sn_st with
+  | Withdrawn ->
+    JObj (("code", (JStr
+      (code_of cfg.cf_method Withdrawn c.sn_pend))) :: (("state", (JStr
+      (state_name Withdrawn))) :: []))
+  | x ->
+    JObj
+      (app (("code", (JStr (code_of cfg.cf_method x c.sn_pend))) :: [])
+        (app (jov a "kf" c.sn_kf)
+          (app
+            (match c.sn_pend with
+             | Some b -> ("pending", (JBool b)) :: []
+             | None -> [])
+            (app (jov a "quotient" c.sn_quo) (("state", (JStr
+              (state_name x))) :: (("vote", (JStr (sv a c.sn_vote))) :: []))))))
+
+(** val json_cstate : arith -> config -> csnap list -> json **)
+
+let json_cstate a cfg l =
+  JObj
+    (map (fun c -> ((string_of_Z c.sn_cid), (json_cstate_entry a cfg c))) l)
+
+(** val json_action : arith -> config -> action -> json **)
+
+let json_action a cfg a0 =
+  match a0.a_snap with
+  | Some sn ->
+    JObj
+      (app (("cstate", (json_cstate a cfg sn.as_c)) :: (("msg", (JStr
+        a0.a_msg)) :: []))
+        (app
+          (match cfg.cf_method with
+           | MWigm -> jov a "nt_votes" sn.as_nt
+           | _ -> [])
+          (app (("quota", (JStr (sv a sn.as_quota))) :: [])
+            (app
+              (match cfg.cf_method with
+               | MMeek -> jov a "residual" sn.as_nt
+               | _ -> [])
+              (app (("round", (JInt a0.a_round)) :: [])
+                (app (jov a "surplus" sn.as_surplus) (("tag", (JStr
+                  (tag_name a0.a_tag))) :: (("votes", (JStr
+                  (sv a sn.as_votes))) :: []))))))))
+  | None ->
+    JObj (("msg", (JStr a0.a_msg)) :: (("round", (JInt
+      a0.a_round)) :: (("tag", (JStr (tag_name a0.a_tag))) :: [])))
+
+(** val json_cdict_entry : arith -> cand -> json **)
+
+let json_cdict_entry _ c =
+  JObj (("ballot_order", (JInt c.corder)) :: (("cid", (JInt
+    c.cid)) :: (("name", (JStr c.cname)) :: (("nick", (JStr
+    c.cnick)) :: (("tie_order", (JInt c.ctie)) :: [])))))
+
+(** val jos : string -> string option -> (string * json) list **)
+
+let jos k = function
+| Some x -> (k, (JStr x)) :: []
+| None -> []
+
+(** val method_name : config -> string **)
+
+let method_name cfg =
+  match cfg.cf_method with
+  | MWigm -> "wigm"
+  | MMeek -> "meek"
+  | MQpq -> "qpq"
+
+(** val json_tree : arith -> arith_meta -> config -> header -> est -> json **)
+
+let json_tree a m cfg h s =
+  JObj
+    (app (("actions", (JList
+      (map (json_action a cfg) (record_actions a s)))) :: (("arithmetic_info",
+      (JStr h.h_arith_info)) :: (("arithmetic_name", (JStr m.aname)) :: [])))
+      (app (jos "arithmetic_report" (arith_report a m h s))
+        (app (("cdict", (JObj
+          (map (fun c -> ((string_of_Z c.cid), (json_cdict_entry a c)))
+            s.cands))) :: (("cids", (JList
+          (map (fun x -> JInt x) (all_cids a s)))) :: (("droop_name", (JStr
+          h.h_droop_name)) :: (("droop_version", (JStr
+          h.h_droop_version)) :: (("ecids", (JList
+          (map (fun x -> JInt x) (elig_cids a s)))) :: (("method", (JStr
+          (method_name cfg))) :: (("nballots", (JInt
+          cfg.cf_nballots)) :: [])))))))
+          (app
+            (match cfg.cf_method with
+             | MMeek ->
+               ("omega",
+                 (match h.h_omega with
+                  | Some o -> JStr o
+                  | None -> JNull)) :: []
+             | _ -> [])
+            (app (("options", h.h_options) :: [])
+              (app (jos "profile_comment" h.h_comment)
+                (app (jos "profile_source" h.h_source) (("quota", (JStr
+                  (sv a (fill_quota a s)))) :: (("rule_info", (JStr
+                  h.h_rule_info)) :: (("rule_name", (JStr
+                  cfg.cf_rule)) :: (("seats", (JInt
+                  cfg.cf_nseats)) :: (("title", (JStr h.h_title)) :: []))))))))))))
+
+(** val json_text :
+    arith -> arith_meta -> config -> header -> est -> string **)
+
+let json_text a m cfg h s =
+  json_text_of (json_tree a m cfg h s)
+
+(** val rd_strs : nat -> tok list -> (string list * tok list) option **)
+
+let rec rd_strs n0 l =
+  match n0 with
+  | O -> Some ([], l)
+  | S k ->
+    (match rd_str l with
+     | Some p ->
+       let (x, t0) = p in
+       (match rd_strs k t0 with
+        | Some p0 -> let (xs, t') = p0 in Some ((x :: xs), t')
+        | None -> None)
+     | None -> None)
+
+(** val rd_json : nat -> tok list -> (json * tok list) option **)
+
+let rec rd_json fuel l =
+  match fuel with
+  | O -> None
+  | S f ->
+    (match l with
+     | [] -> None
+     | t0 :: t1 ->
+       (match t0 with
+        | TI z0 ->
+          ((fun fO fp fn z -> let s = Big_int_Z.sign_big_int z in
+  if s = 0 then fO () else if s > 0 then fp z
+  else fn (Big_int_Z.minus_big_int z))
+             (fun _ -> Some (JNull, t1))
+             (fun p ->
+             (fun f2p1 f2p f1 p ->
+  if Big_int_Z.le_big_int p Big_int_Z.unit_big_int then f1 () else
+  let (q,r) = Big_int_Z.quomod_big_int p (Big_int_Z.big_int_of_int 2) in
+  if Big_int_Z.eq_big_int r Big_int_Z.zero_big_int then f2p q else f2p1 q)
+               (fun p0 ->
+               (fun f2p1 f2p f1 p ->
+  if Big_int_Z.le_big_int p Big_int_Z.unit_big_int then f1 () else
+  let (q,r) = Big_int_Z.quomod_big_int p (Big_int_Z.big_int_of_int 2) in
+  if Big_int_Z.eq_big_int r Big_int_Z.zero_big_int then f2p q else f2p1 q)
+                 (fun _ -> None)
+                 (fun p1 ->
+                 (fun f2p1 f2p f1 p ->
+  if Big_int_Z.le_big_int p Big_int_Z.unit_big_int then f1 () else
+  let (q,r) = Big_int_Z.quomod_big_int p (Big_int_Z.big_int_of_int 2) in
+  if Big_int_Z.eq_big_int r Big_int_Z.zero_big_int then f2p q else f2p1 q)
+                   (fun _ -> None)
+                   (fun _ -> None)
+                   (fun _ ->
+                   match t1 with
+                   | [] -> None
+                   | t2 :: t3 ->
+                     (match t2 with
+                      | TI n0 ->
+                        let rec items k l0 =
+                          match k with
+                          | O -> Some ((JObj []), l0)
+                          | S k' ->
+                            (match l0 with
+                             | [] -> None
+                             | t4 :: l1 ->
+                               (match t4 with
+                                | TI _ -> None
+                                | TS key ->
+                                  (match rd_json f l1 with
+                                   | Some p2 ->
+                                     let (x, t5) = p2 in
+                                     (match items k' t5 with
+                                      | Some p3 ->
+                                        let (j, t6) = p3 in
+                                        (match j with
+                                         | JObj xs ->
+                                           Some ((JObj ((key, x) :: xs)), t6)
+                                         | _ -> None)
+                                      | None -> None)
+                                   | None -> None)))
+                        in items (Z.to_nat n0) t3
+                      | TS _ -> None))
+                   p1)
+                 (fun _ ->
+                 match t1 with
+                 | [] -> None
+                 | t2 :: t3 ->
+                   (match t2 with
+                    | TI _ -> None
+                    | TS x -> Some ((JStr x), t3)))
+                 p0)
+               (fun p0 ->
+               (fun f2p1 f2p f1 p ->
+  if Big_int_Z.le_big_int p Big_int_Z.unit_big_int then f1 () else
+  let (q,r) = Big_int_Z.quomod_big_int p (Big_int_Z.big_int_of_int 2) in
+  if Big_int_Z.eq_big_int r Big_int_Z.zero_big_int then f2p q else f2p1 q)
+                 (fun _ -> None)
+                 (fun p1 ->
+                 (fun f2p1 f2p f1 p ->
+  if Big_int_Z.le_big_int p Big_int_Z.unit_big_int then f1 () else
+  let (q,r) = Big_int_Z.quomod_big_int p (Big_int_Z.big_int_of_int 2) in
+  if Big_int_Z.eq_big_int r Big_int_Z.zero_big_int then f2p q else f2p1 q)
+                   (fun _ -> None)
+                   (fun _ -> None)
+                   (fun _ ->
+                   match t1 with
+                   | [] -> None
+                   | t2 :: t3 ->
+                     (match t2 with
+                      | TI n0 ->
+                        let rec items k l0 =
+                          match k with
+                          | O -> Some ((JList []), l0)
+                          | S k' ->
+                            (match rd_json f l0 with
+                             | Some p2 ->
+                               let (x, t4) = p2 in
+                               (match items k' t4 with
+                                | Some p3 ->
+                                  let (j, t5) = p3 in
+                                  (match j with
+                                   | JList xs -> Some ((JList (x :: xs)), t5)
+                                   | _ -> None)
+                                | None -> None)
+                             | None -> None)
+                        in items (Z.to_nat n0) t3
+                      | TS _ -> None))
+                   p1)
+                 (fun _ ->
+                 match t1 with
+                 | [] -> None
+                 | t2 :: t3 ->
+                   (match t2 with
+                    | TI z1 -> Some ((JInt z1), t3)
+                    | TS _ -> None))
+                 p0)
+               (fun _ ->
+               match t1 with
+               | [] -> None
+               | t2 :: t3 ->
+                 (match t2 with
+                  | TI b ->
+                    Some ((JBool (negb (Z.eqb b Big_int_Z.zero_big_int))), t3)
+                  | TS _ -> None))
+               p)
+             (fun _ -> None)
+             z0)
+        | TS _ -> None))
+
+(** val rd_opt_str : tok list -> (string option * tok list) option **)
+
+let rd_opt_str = function
+| [] -> None
+| t0 :: l0 ->
+  (match t0 with
+   | TI b ->
+     (match l0 with
+      | [] -> None
+      | t1 :: t2 ->
+        (match t1 with
+         | TI _ -> None
+         | TS x ->
+           Some ((if Z.eqb b Big_int_Z.zero_big_int then None else Some x),
+             t2)))
+   | TS _ -> None)
+
+(** val rd_header : tok list -> ((bool * header) * tok list) option **)
+
+let rd_header = function
+| [] -> None
+| t0 :: l0 ->
+  (match t0 with
+   | TI intr ->
+     (match l0 with
+      | [] -> None
+      | t1 :: l1 ->
+        (match t1 with
+         | TI _ -> None
+         | TS title ->
+           (match l1 with
+            | [] -> None
+            | t2 :: l2 ->
+              (match t2 with
+               | TI _ -> None
+               | TS dn ->
+                 (match l2 with
+                  | [] -> None
+                  | t3 :: l3 ->
+                    (match t3 with
+                     | TI _ -> None
+                     | TS dv ->
+                       (match l3 with
+                        | [] -> None
+                        | t4 :: l4 ->
+                          (match t4 with
+                           | TI _ -> None
+                           | TS ri ->
+                             (match l4 with
+                              | [] -> None
+                              | t5 :: l5 ->
+                                (match t5 with
+                                 | TI _ -> None
+                                 | TS ai ->
+                                   (match l5 with
+                                    | [] -> None
+                                    | t6 :: t7 ->
+                                      (match t6 with
+                                       | TI nu ->
+                                         (match rd_strs (Z.to_nat nu) t7 with
+                                          | Some p ->
+                                            let (unused, l6) = p in
+                                            (match l6 with
+                                             | [] -> None
+                                             | t8 :: t9 ->
+                                               (match t8 with
+                                                | TI no ->
+                                                  (match rd_strs
+                                                           (Z.to_nat no) t9 with
+                                                   | Some p0 ->
+                                                     let (over, l7) = p0 in
+                                                     (match l7 with
+                                                      | [] -> None
+                                                      | t10 :: t11 ->
+                                                        (match t10 with
+                                                         | TI _ -> None
+                                                         | TS qn ->
+                                                           (match rd_opt_str
+                                                                    t11 with
+                                                            | Some p1 ->
+                                                              let (omega0, t12) =
+                                                                p1
+                                                              in
+                                                              (match 
+                                                               rd_opt_str t12 with
+                                                               | Some p2 ->
+                                                                 let (
+                                                                   src, t13) =
+                                                                   p2
+                                                                 in
+                                                                 (match 
+                                                                  rd_opt_str
+                                                                    t13 with
+                                                                  | Some p3 ->
+                                                                    let (
+                                                                    com, l8) =
+                                                                    p3
+                                                                    in
+                                                                    (
+                                                                    match l8 with
+                                                                    | [] ->
+                                                                    None
+                                                                    | t14 :: l9 ->
+                                                                    (match t14 with
+                                                                    | TI _ ->
+                                                                    None
+                                                                    | TS maxd ->
+                                                                    (match l9 with
+                                                                    | [] ->
+                                                                    None
+                                                                    | t15 :: t16 ->
+                                                                    (match t15 with
+                                                                    | TI _ ->
+                                                                    None
+                                                                    | TS mind ->
+                                                                    (match 
+                                                                    rd_json
+                                                                    (S
+                                                                    (length
+                                                                    t16)) t16 with
+                                                                    | Some p4 ->
+                                                                    let (
+                                                                    opts0, t17) =
+                                                                    p4
+                                                                    in
+                                                                    Some
+                                                                    ((
+                                                                    (negb
+                                                                    (Z.eqb
+                                                                    intr
+                                                                    Big_int_Z.zero_big_int)),
+                                                                    { h_title =
+                                                                    title;
+                                                                    h_droop_name =
+                                                                    dn;
+                                                                    h_droop_version =
+                                                                    dv;
+                                                                    h_rule_info =
+                                                                    ri;
+                                                                    h_arith_info =
+                                                                    ai;
+                                                                    h_unused =
+                                                                    unused;
+                                                                    h_overridden =
+                                                                    over;
+                                                                    h_quota_name =
+                                                                    qn;
+                                                                    h_omega =
+                                                                    omega0;
+                                                                    h_source =
+                                                                    src;
+                                                                    h_comment =
+                                                                    com;
+                                                                    h_maxdiff =
+                                                                    maxd;
+                                                                    h_mindiff =
+                                                                    mind;
+                                                                    h_options =
+                                                                    opts0 }),
+                                                                    t17)
+                                                                    | None ->
+                                                                    None)))))
+                                                                  | None ->
+                                                                    None)
+                                                               | None -> None)
+                                                            | None -> None)))
+                                                   | None -> None)
+                                                | TS _ -> None))
+                                          | None -> None)
+                                       | TS _ -> None))))))))))))
+   | TS _ -> None)
+
+(** val mark_report : string **)
+
+let mark_report =
+  (^) "=== RENDER-REPORT ===" nl
+
+(** val mark_dump : string **)
+
+let mark_dump =
+  (^) "=== RENDER-DUMP ===" nl
+
+(** val mark_json : string **)
+
+let mark_json =
+  (^) "=== RENDER-JSON ===" nl
+
+(** val show_render :
+    arith -> arith_meta -> config -> header -> bool -> outcome -> string **)
+
+let show_render a m cfg h intr = function
+| Done (s, _) ->
+  String.concat ""
+    (mark_report :: ((report_text a m cfg h intr s) :: (mark_dump :: (
+    (dump_text a cfg s) :: (mark_json :: ((json_text a m cfg h s) :: []))))))
+| Crashed (s, _) ->
+  String.concat ""
+    (mark_report :: ((report_text a m cfg h intr s) :: (mark_dump :: (
+    (dump_text a cfg s) :: (mark_json :: ((json_text a m cfg h s) :: []))))))
+| OutOfFuel -> "X OutOfFuel"
+
+(** val run_render : tok list -> string **)
+
+let run_render l =
+  match rd_header l with
+  | Some p ->
+    let (p0, l0) = p in
+    let (intr, h) = p0 in
+    (match l0 with
+     | [] -> "badheader-count"
+     | t0 :: rest ->
+       (match t0 with
+        | TI _ -> "badheader-count"
+        | TS s ->
+          ((* If this appears, you're using String internals. Please don't *)
+ (fun f0 f1 s ->
+    let l = String.length s in
+    if l = 0 then f0 () else f1 (String.get s 0) (String.sub s 1 (l-1)))
+
+             (fun _ -> "badheader-count")
+             (fun a s0 ->
+             (* If this appears, you're using Ascii internals. Please don't *)
+ (fun f c ->
+  let n = Char.code c in
+  let h i = (n land (1 lsl i)) <> 0 in
+  f (h 0) (h 1) (h 2) (h 3) (h 4) (h 5) (h 6) (h 7))
+               (fun b b0 b1 b2 b3 b4 b5 b6 ->
+               if b
+               then if b0
+                    then if b1
+                         then "badheader-count"
+                         else if b2
+                              then "badheader-count"
+                              else if b3
+                                   then "badheader-count"
+                                   else if b4
+                                        then if b5
+                                             then if b6
+                                                  then "badheader-count"
+                                                  else ((* If this appears, you're using String internals. Please don't *)
+ (fun f0 f1 s ->
+    let l = String.length s in
+    if l = 0 then f0 () else f1 (String.get s 0) (String.sub s 1 (l-1)))
+
+                                                          (fun _ ->
+                                                          "badheader-count")
+                                                          (fun a0 s1 ->
+                                                          (* If this appears, you're using Ascii internals. Please don't *)
+ (fun f c ->
+  let n = Char.code c in
+  let h i = (n land (1 lsl i)) <> 0 in
+  f (h 0) (h 1) (h 2) (h 3) (h 4) (h 5) (h 6) (h 7))
+                                                            (fun b7 b8 b9 b10 b11 b12 b13 b14 ->
+                                                            if b7
+                                                            then if b8
+                                                                 then 
+                                                                   if b9
+                                                                   then 
+                                                                    if b10
+                                                                    then 
+                                                                    if b11
+                                                                    then 
+                                                                    "badheader-count"
+                                                                    else 
+                                                                    if b12
+                                                                    then 
+                                                                    if b13
+                                                                    then 
+                                                                    if b14
+                                                                    then 
+                                                                    "badheader-count"
+                                                                    else 
+                                                                    ((* If this appears, you're using String internals. Please don't *)
+ (fun f0 f1 s ->
+    let l = String.length s in
+    if l = 0 then f0 () else f1 (String.get s 0) (String.sub s 1 (l-1)))
+
+                                                                    (fun _ ->
+                                                                    "badheader-count")
+                                                                    (fun a1 s2 ->
+                                                                    (* If this appears, you're using Ascii internals. Please don't *)
+ (fun f c ->
+  let n = Char.code c in
+  let h i = (n land (1 lsl i)) <> 0 in
+  f (h 0) (h 1) (h 2) (h 3) (h 4) (h 5) (h 6) (h 7))
+                                                                    (fun b15 b16 b17 b18 b19 b20 b21 b22 ->
+                                                                    if b15
+                                                                    then 
+                                                                    if b16
+                                                                    then 
+                                                                    "badheader-count"
+                                                                    else 
+                                                                    if b17
+                                                                    then 
+                                                                    if b18
+                                                                    then 
+                                                                    "badheader-count"
+                                                                    else 
+                                                                    if b19
+                                                                    then 
+                                                                    if b20
+                                                                    then 
+                                                                    if b21
+                                                                    then 
+                                                                    if b22
+                                                                    then 
+                                                                    "badheader-count"
+                                                                    else 
+                                                                    ((* If this appears, you're using String internals. Please don't *)
+ (fun f0 f1 s ->
+    let l = String.length s in
+    if l = 0 then f0 () else f1 (String.get s 0) (String.sub s 1 (l-1)))
+
+                                                                    (fun _ ->
+                                                                    "badheader-count")
+                                                                    (fun a2 s3 ->
+                                                                    (* If this appears, you're using Ascii internals. Please don't *)
+ (fun f c ->
+  let n = Char.code c in
+  let h i = (n land (1 lsl i)) <> 0 in
+  f (h 0) (h 1) (h 2) (h 3) (h 4) (h 5) (h 6) (h 7))
+                                                                    (fun b23 b24 b25 b26 b27 b28 b29 b30 ->
+                                                                    if b23
+                                                                    then 
+                                                                    "badheader-count"
+                                                                    else 
+                                                                    if b24
+                                                                    then 
+                                                                    if b25
+                                                                    then 
+                                                                    if b26
+                                                                    then 
+                                                                    if b27
+                                                                    then 
+                                                                    "badheader-count"
+                                                                    else 
+                                                                    if b28
+                                                                    then 
+                                                                    if b29
+                                                                    then 
+                                                                    if b30
+                                                                    then 
+                                                                    "badheader-count"
+                                                                    else 
+                                                                    ((* If this appears, you're using String internals. Please don't *)
+ (fun f0 f1 s ->
+    let l = String.length s in
+    if l = 0 then f0 () else f1 (String.get s 0) (String.sub s 1 (l-1)))
+
+                                                                    (fun _ ->
+                                                                    "badheader-count")
+                                                                    (fun a3 s4 ->
+                                                                    (* If this appears, you're using Ascii internals. Please don't *)
+ (fun f c ->
+  let n = Char.code c in
+  let h i = (n land (1 lsl i)) <> 0 in
+  f (h 0) (h 1) (h 2) (h 3) (h 4) (h 5) (h 6) (h 7))
+                                                                    (fun b31 b32 b33 b34 b35 b36 b37 b38 ->
+                                                                    if b31
+                                                                    then 
+                                                                    "badheader-count"
+                                                                    else 
+                                                                    if b32
+                                                                    then 
+                                                                    "badheader-count"
+                                                                    else 
+                                                                    if b33
+                                                                    then 
+                                                                    if b34
+                                                                    then 
+                                                                    "badheader-count"
+                                                                    else 
+                                                                    if b35
+                                                                    then 
+                                                                    if b36
+                                                                    then 
+                                                                    if b37
+                                                                    then 
+                                                                    if b38
+                                                                    then 
+                                                                    "badheader-count"
+                                                                    else 
+                                                                    ((* If this appears, you're using String internals. Please don't *)
+ (fun f0 f1 s ->
+    let l = String.length s in
+    if l = 0 then f0 () else f1 (String.get s 0) (String.sub s 1 (l-1)))
+
+                                                                    (fun _ ->
+                                                                    match 
+                                                                    parse_count_case
+                                                                    rest with
+                                                                    | Inl e ->
+                                                                    e
+                                                                    | Inr c ->
+                                                                    let r =
+                                                                    c.cc_rule
+                                                                    in
+                                                                    let cfg =
+                                                                    c.cc_cfg
+                                                                    in
+                                                                    let fuel =
+                                                                    c.cc_fuel
+                                                                    in
+                                                                    let pr =
+                                                                    c.cc_profile
+                                                                    in
+                                                                    let p1 =
+                                                                    c.cc_p
+                                                                    in
+                                                                    let g =
+                                                                    c.cc_g
+                                                                    in
+                                                                    let d =
+                                                                    c.cc_d
+                                                                    in
+                                                                    let stale =
+                                                                    c.cc_stale
+                                                                    in
+                                                                    if 
+                                                                    Z.eqb
+                                                                    c.cc_ar
+                                                                    Big_int_Z.zero_big_int
+                                                                    then 
+                                                                    show_render
+                                                                    (fixed p1
+                                                                    d)
+                                                                    (fixedMeta
+                                                                    p1 d) cfg
+                                                                    h intr
+                                                                    (run_count
+                                                                    (fixed p1
+                                                                    d) cfg
+                                                                    fuel r pr)
+                                                                    else 
+                                                                    if 
+                                                                    Z.eqb
+                                                                    c.cc_ar
+                                                                    Big_int_Z.unit_big_int
+                                                                    then 
+                                                                    show_render
+                                                                    (guarded
+                                                                    p1 g d
+                                                                    stale)
+                                                                    (guardedMeta
+                                                                    p1 g d
+                                                                    stale)
+                                                                    cfg h
+                                                                    intr
+                                                                    (run_count
+                                                                    (guarded
+                                                                    p1 g d
+                                                                    stale)
+                                                                    cfg fuel
+                                                                    r pr)
+                                                                    else 
+                                                                    show_render
+                                                                    (rational
+                                                                    d)
+                                                                    rationalMeta
+                                                                    cfg h
+                                                                    intr
+                                                                    (run_count
+                                                                    (rational
+                                                                    d) cfg
+                                                                    fuel r pr))
+                                                                    (fun _ _ ->
+                                                                    "badheader-count")
+                                                                    s4)
+                                                                    else 
+                                                                    "badheader-count"
+                                                                    else 
+                                                                    "badheader-count"
+                                                                    else 
+                                                                    "badheader-count"
+                                                                    else 
+                                                                    "badheader-count")
+                                                                    a3)
+                                                                    s3)
+                                                                    else 
+                                                                    "badheader-count"
+                                                                    else 
+                                                                    "badheader-count"
+                                                                    else 
+                                                                    "badheader-count"
+                                                                    else 
+                                                                    "badheader-count"
+                                                                    else 
+                                                                    "badheader-count")
+                                                                    a2)
+                                                                    s2)
+                                                                    else 
+                                                                    "badheader-count"
+                                                                    else 
+                                                                    "badheader-count"
+                                                                    else 
+                                                                    "badheader-count"
+                                                                    else 
+                                                                    "badheader-count"
+                                                                    else 
+                                                                    "badheader-count")
+                                                                    a1)
+                                                                    s1)
+                                                                    else 
+                                                                    "badheader-count"
+                                                                    else 
+                                                                    "badheader-count"
+                                                                    else 
+                                                                    "badheader-count"
+                                                                   else 
+                                                                    "badheader-count"
+                                                                 else 
+                                                                   "badheader-count"
+                                                            else "badheader-count")
+                                                            a0)
+                                                          s0)
+                                             else "badheader-count"
+                                        else "badheader-count"
+                    else "badheader-count"
+               else "badheader-count")
+               a)
+             s)))
+  | None -> "badheader"
 
 (** val show_resZ : Big_int_Z.big_int res -> string **)
 
@@ -8609,198 +11096,6 @@ let run_values = function
      (fun _ -> "badcase")
      z0)
 
-(** val rd_int : tok list -> (Big_int_Z.big_int * tok list) option **)
-
-let rd_int = function
-| [] -> None
-| t0 :: t1 -> (match t0 with
-               | TI z0 -> Some (z0, t1)
-               | TS _ -> None)
-
-(** val rd_ints :
-    nat -> tok list -> (Big_int_Z.big_int list * tok list) option **)
-
-let rec rd_ints n0 l =
-  match n0 with
-  | O -> Some ([], l)
-  | S k ->
-    (match rd_int l with
-     | Some p ->
-       let (z0, t0) = p in
-       (match rd_ints k t0 with
-        | Some p0 -> let (zs, t') = p0 in Some ((z0 :: zs), t')
-        | None -> None)
-     | None -> None)
-
-(** val rd_cand : tok list -> (pcand * tok list) option **)
-
-let rd_cand = function
-| [] -> None
-| t0 :: l0 ->
-  (match t0 with
-   | TI c ->
-     (match l0 with
-      | [] -> None
-      | t1 :: l1 ->
-        (match t1 with
-         | TI o ->
-           (match l1 with
-            | [] -> None
-            | t2 :: l2 ->
-              (match t2 with
-               | TI ti ->
-                 (match l2 with
-                  | [] -> None
-                  | t3 :: l3 ->
-                    (match t3 with
-                     | TI _ -> None
-                     | TS nm ->
-                       (match l3 with
-                        | [] -> None
-                        | t4 :: l4 ->
-                          (match t4 with
-                           | TI _ -> None
-                           | TS nk ->
-                             (match l4 with
-                              | [] -> None
-                              | t5 :: l5 ->
-                                (match t5 with
-                                 | TI w ->
-                                   (match l5 with
-                                    | [] -> None
-                                    | t6 :: t7 ->
-                                      (match t6 with
-                                       | TI u ->
-                                         Some ({ pc_cid = c; pc_order = o;
-                                           pc_tie = ti; pc_name = nm;
-                                           pc_nick = nk; pc_withdrawn =
-                                           (negb
-                                             (Z.eqb w Big_int_Z.zero_big_int));
-                                           pc_undeclared =
-                                           (negb
-                                             (Z.eqb u Big_int_Z.zero_big_int)) },
-                                           t7)
-                                       | TS _ -> None))
-                                 | TS _ -> None))))))
-               | TS _ -> None))
-         | TS _ -> None))
-   | TS _ -> None)
-
-(** val rd_many :
-    (tok list -> ('a1 * tok list) option) -> nat -> tok list -> ('a1
-    list * tok list) option **)
-
-let rec rd_many rd n0 l =
-  match n0 with
-  | O -> Some ([], l)
-  | S k ->
-    (match rd l with
-     | Some p ->
-       let (x, t0) = p in
-       (match rd_many rd k t0 with
-        | Some p0 -> let (xs, t') = p0 in Some ((x :: xs), t')
-        | None -> None)
-     | None -> None)
-
-(** val rd_ballot :
-    tok list -> ((Big_int_Z.big_int * Big_int_Z.big_int list) * tok list)
-    option **)
-
-let rd_ballot = function
-| [] -> None
-| t0 :: l0 ->
-  (match t0 with
-   | TI m ->
-     (match l0 with
-      | [] -> None
-      | t1 :: t2 ->
-        (match t1 with
-         | TI n0 ->
-           (match rd_ints (Z.to_nat n0) t2 with
-            | Some p -> let (r, t') = p in Some ((m, r), t')
-            | None -> None)
-         | TS _ -> None))
-   | TS _ -> None)
-
-(** val rd_rank : tok list -> (Big_int_Z.big_int list * tok list) option **)
-
-let rd_rank = function
-| [] -> None
-| t0 :: t1 -> (match t0 with
-               | TI n0 -> rd_ints (Z.to_nat n0) t1
-               | TS _ -> None)
-
-(** val rd_eballot :
-    tok list -> ((Big_int_Z.big_int * Big_int_Z.big_int list list) * tok
-    list) option **)
-
-let rd_eballot = function
-| [] -> None
-| t0 :: l0 ->
-  (match t0 with
-   | TI m ->
-     (match l0 with
-      | [] -> None
-      | t1 :: t2 ->
-        (match t1 with
-         | TI n0 ->
-           (match rd_many rd_rank (Z.to_nat n0) t2 with
-            | Some p -> let (r, t') = p in Some ((m, r), t')
-            | None -> None)
-         | TS _ -> None))
-   | TS _ -> None)
-
-(** val tag_name : tag -> string **)
-
-let tag_name = function
-| TBegin -> "begin"
-| TCount -> "count"
-| TLog -> "log"
-| TRound -> "round"
-| TTie -> "tie"
-| TElect -> "elect"
-| TDefeat -> "defeat"
-| TIterate -> "iterate"
-| TUnpend -> "unpend"
-| TTransfer -> "transfer"
-| TEnd -> "end"
-
-(** val state_name : cstate -> string **)
-
-let state_name = function
-| Hopeful -> "hopeful"
-| Elected -> "elected"
-| Defeated -> "defeated"
-| Withdrawn -> "withdrawn"
-
-(** val is_wigm : meth -> bool **)
-
-let is_wigm = function
-| MWigm -> true
-| _ -> false
-
-(** val code_of : meth -> cstate -> bool option -> string **)
-
-let code_of m c p =
-  match c with
-  | Hopeful -> "H"
-  | Elected ->
-    if (&&) (is_wigm m) (match p with
-                         | Some b -> b
-                         | None -> false)
-    then "e"
-    else "E"
-  | Defeated -> "D"
-  | Withdrawn -> "W"
-
-(** val lf : string **)
-
-let lf =
-  (* If this appears, you're using String internals. Please don't *)
-  (fun (c, s) -> String.make 1 c ^ s)
-
-    ((ascii_of_nat (S (S (S (S (S (S (S (S (S (S O))))))))))), "")
-
 (** val showv : arith -> t -> string **)
 
 let showv a v =
@@ -8899,328 +11194,28 @@ let show_outcome a m = function
     ((^) "X " (exn_name e))
 | OutOfFuel -> "X OutOfFuel"
 
-(** val rule_of : Big_int_Z.big_int -> rule **)
-
-let rule_of z0 =
-  (fun fO fp fn z -> let s = Big_int_Z.sign_big_int z in
-  if s = 0 then fO () else if s > 0 then fp z
-  else fn (Big_int_Z.minus_big_int z))
-    (fun _ -> RWigm)
-    (fun p ->
-    (fun f2p1 f2p f1 p ->
-  if Big_int_Z.le_big_int p Big_int_Z.unit_big_int then f1 () else
-  let (q,r) = Big_int_Z.quomod_big_int p (Big_int_Z.big_int_of_int 2) in
-  if Big_int_Z.eq_big_int r Big_int_Z.zero_big_int then f2p q else f2p1 q)
-      (fun p0 ->
-      (fun f2p1 f2p f1 p ->
-  if Big_int_Z.le_big_int p Big_int_Z.unit_big_int then f1 () else
-  let (q,r) = Big_int_Z.quomod_big_int p (Big_int_Z.big_int_of_int 2) in
-  if Big_int_Z.eq_big_int r Big_int_Z.zero_big_int then f2p q else f2p1 q)
-        (fun _ -> RQpq)
-        (fun p1 ->
-        (fun f2p1 f2p f1 p ->
-  if Big_int_Z.le_big_int p Big_int_Z.unit_big_int then f1 () else
-  let (q,r) = Big_int_Z.quomod_big_int p (Big_int_Z.big_int_of_int 2) in
-  if Big_int_Z.eq_big_int r Big_int_Z.zero_big_int then f2p q else f2p1 q)
-          (fun _ -> RQpq)
-          (fun _ -> RQpq)
-          (fun _ -> RMeek)
-          p1)
-        (fun _ -> RCfer)
-        p0)
-      (fun p0 ->
-      (fun f2p1 f2p f1 p ->
-  if Big_int_Z.le_big_int p Big_int_Z.unit_big_int then f1 () else
-  let (q,r) = Big_int_Z.quomod_big_int p (Big_int_Z.big_int_of_int 2) in
-  if Big_int_Z.eq_big_int r Big_int_Z.zero_big_int then f2p q else f2p1 q)
-        (fun p1 ->
-        (fun f2p1 f2p f1 p ->
-  if Big_int_Z.le_big_int p Big_int_Z.unit_big_int then f1 () else
-  let (q,r) = Big_int_Z.quomod_big_int p (Big_int_Z.big_int_of_int 2) in
-  if Big_int_Z.eq_big_int r Big_int_Z.zero_big_int then f2p q else f2p1 q)
-          (fun _ -> RQpq)
-          (fun _ -> RQpq)
-          (fun _ -> RMeekPrf)
-          p1)
-        (fun p1 ->
-        (fun f2p1 f2p f1 p ->
-  if Big_int_Z.le_big_int p Big_int_Z.unit_big_int then f1 () else
-  let (q,r) = Big_int_Z.quomod_big_int p (Big_int_Z.big_int_of_int 2) in
-  if Big_int_Z.eq_big_int r Big_int_Z.zero_big_int then f2p q else f2p1 q)
-          (fun _ -> RQpq)
-          (fun _ -> RQpq)
-          (fun _ -> RMpls)
-          p1)
-        (fun _ -> RScotland)
-        p0)
-      (fun _ -> RWigmPrf)
-      p)
-    (fun _ -> RQpq)
-    z0
-
-(** val meth_of : rule -> meth **)
-
-let meth_of = function
-| RMeek -> MMeek
-| RMeekPrf -> MMeek
-| RQpq -> MQpq
-| _ -> MWigm
-
 (** val run_count_case : tok list -> string **)
 
-let run_count_case = function
-| [] -> "badcount"
-| t0 :: l0 ->
-  (match t0 with
-   | TI _ -> "badcount"
-   | TS rname ->
-     (match l0 with
-      | [] -> "badcount"
-      | t1 :: l1 ->
-        (match t1 with
-         | TI rl ->
-           (match l1 with
-            | [] -> "badcount"
-            | t2 :: l2 ->
-              (match t2 with
-               | TI ar ->
-                 (match l2 with
-                  | [] -> "badcount"
-                  | t3 :: l3 ->
-                    (match t3 with
-                     | TI p ->
-                       (match l3 with
-                        | [] -> "badcount"
-                        | t4 :: l4 ->
-                          (match t4 with
-                           | TI g ->
-                             (match l4 with
-                              | [] -> "badcount"
-                              | t5 :: l5 ->
-                                (match t5 with
-                                 | TI d ->
-                                   (match l5 with
-                                    | [] -> "badcount"
-                                    | t6 :: l6 ->
-                                      (match t6 with
-                                       | TI stale ->
-                                         (match l6 with
-                                          | [] -> "badcount"
-                                          | t7 :: l7 ->
-                                            (match t7 with
-                                             | TI om ->
-                                               (match l7 with
-                                                | [] -> "badcount"
-                                                | t8 :: l8 ->
-                                                  (match t8 with
-                                                   | TI iq ->
-                                                     (match l8 with
-                                                      | [] -> "badcount"
-                                                      | t9 :: l9 ->
-                                                        (match t9 with
-                                                         | TI bz ->
-                                                           (match l9 with
-                                                            | [] -> "badcount"
-                                                            | t10 :: l10 ->
-                                                              (match t10 with
-                                                               | TI bt ->
-                                                                 (match l10 with
-                                                                  | [] ->
-                                                                    "badcount"
-                                                                  | t11 :: l11 ->
-                                                                    (match t11 with
-                                                                    | TI wa ->
-                                                                    (match l11 with
-                                                                    | [] ->
-                                                                    "badcount"
-                                                                    | t12 :: l12 ->
-                                                                    (match t12 with
-                                                                    | TI fb ->
-                                                                    (match l12 with
-                                                                    | [] ->
-                                                                    "badcount"
-                                                                    | t13 :: l13 ->
-                                                                    (match t13 with
-                                                                    | TI ns ->
-                                                                    (match l13 with
-                                                                    | [] ->
-                                                                    "badcount"
-                                                                    | t14 :: l14 ->
-                                                                    (match t14 with
-                                                                    | TI nb ->
-                                                                    (match l14 with
-                                                                    | [] ->
-                                                                    "badcount"
-                                                                    | t15 :: rest ->
-                                                                    (match t15 with
-                                                                    | TI nc ->
-                                                                    (match 
-                                                                    rd_many
-                                                                    rd_cand
-                                                                    (Z.to_nat
-                                                                    nc) rest with
-                                                                    | Some p0 ->
-                                                                    let (
-                                                                    cs, rest1) =
-                                                                    p0
-                                                                    in
-                                                                    (
-                                                                    match rest1 with
-                                                                    | [] ->
-                                                                    "badballots"
-                                                                    | t16 :: rest2 ->
-                                                                    (match t16 with
-                                                                    | TI nbl ->
-                                                                    (match 
-                                                                    rd_many
-                                                                    rd_ballot
-                                                                    (Z.to_nat
-                                                                    nbl) rest2 with
-                                                                    | Some p1 ->
-                                                                    let (
-                                                                    bs, rest3) =
-                                                                    p1
-                                                                    in
-                                                                    (
-                                                                    match rest3 with
-                                                                    | [] ->
-                                                                    "badeballots"
-                                                                    | t17 :: rest4 ->
-                                                                    (match t17 with
-                                                                    | TI nebl ->
-                                                                    (match 
-                                                                    rd_many
-                                                                    rd_eballot
-                                                                    (Z.to_nat
-                                                                    nebl)
-                                                                    rest4 with
-                                                                    | Some p2 ->
-                                                                    let (
-                                                                    ebs, _) =
-                                                                    p2
-                                                                    in
-                                                                    let r =
-                                                                    rule_of rl
-                                                                    in
-                                                                    let cfg =
-                                                                    { cf_rule =
-                                                                    rname;
-                                                                    cf_method =
-                                                                    (meth_of
-                                                                    r);
-                                                                    cf_nseats =
-                                                                    ns;
-                                                                    cf_nballots =
-                                                                    nb;
-                                                                    cf_integer_quota =
-                                                                    (negb
-                                                                    (Z.eqb iq
-                                                                    Big_int_Z.zero_big_int));
-                                                                    cf_batch_zero =
-                                                                    (negb
-                                                                    (Z.eqb bz
-                                                                    Big_int_Z.zero_big_int));
-                                                                    cf_batch =
-                                                                    (negb
-                                                                    (Z.eqb bt
-                                                                    Big_int_Z.zero_big_int));
-                                                                    cf_warren =
-                                                                    (negb
-                                                                    (Z.eqb wa
-                                                                    Big_int_Z.zero_big_int));
-                                                                    cf_omega10 =
-                                                                    om }
-                                                                    in
-                                                                    let pr =
-                                                                    { pr_nseats =
-                                                                    ns;
-                                                                    pr_nballots =
-                                                                    nb;
-                                                                    pr_cands =
-                                                                    cs;
-                                                                    pr_ballots =
-                                                                    bs;
-                                                                    pr_eballots =
-                                                                    ebs }
-                                                                    in
-                                                                    let fuel =
-                                                                    Coq_Pos.pow
-                                                                    (Big_int_Z.mult_int_big_int 2
-                                                                    Big_int_Z.unit_big_int)
-                                                                    (Z.to_pos
-                                                                    fb)
-                                                                    in
-                                                                    if 
-                                                                    Z.eqb ar
-                                                                    Big_int_Z.zero_big_int
-                                                                    then 
-                                                                    show_outcome
-                                                                    (fixed p
-                                                                    d)
-                                                                    (meth_of
-                                                                    r)
-                                                                    (run_count
-                                                                    (fixed p
-                                                                    d) cfg
-                                                                    fuel r pr)
-                                                                    else 
-                                                                    if 
-                                                                    Z.eqb ar
-                                                                    Big_int_Z.unit_big_int
-                                                                    then 
-                                                                    show_outcome
-                                                                    (guarded
-                                                                    p g d
-                                                                    stale)
-                                                                    (meth_of
-                                                                    r)
-                                                                    (run_count
-                                                                    (guarded
-                                                                    p g d
-                                                                    stale)
-                                                                    cfg fuel
-                                                                    r pr)
-                                                                    else 
-                                                                    show_outcome
-                                                                    (rational
-                                                                    d)
-                                                                    (meth_of
-                                                                    r)
-                                                                    (run_count
-                                                                    (rational
-                                                                    d) cfg
-                                                                    fuel r pr)
-                                                                    | None ->
-                                                                    "badeballots")
-                                                                    | TS _ ->
-                                                                    "badeballots"))
-                                                                    | None ->
-                                                                    "badballots")
-                                                                    | TS _ ->
-                                                                    "badballots"))
-                                                                    | None ->
-                                                                    "badcands")
-                                                                    | TS _ ->
-                                                                    "badcount"))
-                                                                    | TS _ ->
-                                                                    "badcount"))
-                                                                    | TS _ ->
-                                                                    "badcount"))
-                                                                    | TS _ ->
-                                                                    "badcount"))
-                                                                    | TS _ ->
-                                                                    "badcount"))
-                                                               | TS _ ->
-                                                                 "badcount"))
-                                                         | TS _ -> "badcount"))
-                                                   | TS _ -> "badcount"))
-                                             | TS _ -> "badcount"))
-                                       | TS _ -> "badcount"))
-                                 | TS _ -> "badcount"))
-                           | TS _ -> "badcount"))
-                     | TS _ -> "badcount"))
-               | TS _ -> "badcount"))
-         | TS _ -> "badcount")))
+let run_count_case l =
+  match parse_count_case l with
+  | Inl e -> e
+  | Inr c ->
+    let r = c.cc_rule in
+    let cfg = c.cc_cfg in
+    let fuel = c.cc_fuel in
+    let pr = c.cc_profile in
+    let p = c.cc_p in
+    let g = c.cc_g in
+    let d = c.cc_d in
+    let stale = c.cc_stale in
+    if Z.eqb c.cc_ar Big_int_Z.zero_big_int
+    then show_outcome (fixed p d) (meth_of r)
+           (run_count (fixed p d) cfg fuel r pr)
+    else if Z.eqb c.cc_ar Big_int_Z.unit_big_int
+         then show_outcome (guarded p g d stale) (meth_of r)
+                (run_count (guarded p g d stale) cfg fuel r pr)
+         else show_outcome (rational d) (meth_of r)
+                (run_count (rational d) cfg fuel r pr)
 
 (** val run : tok list -> string **)
 
@@ -9717,7 +11712,263 @@ let run = function
                                         else "badcommand"
                                    else "badcommand"
                               else "badcommand"
-                    else "badcommand"
+                    else if b2
+                         then "badcommand"
+                         else if b3
+                              then if b4
+                                   then if b5
+                                        then if b6
+                                             then "badcommand"
+                                             else ((* If this appears, you're using String internals. Please don't *)
+ (fun f0 f1 s ->
+    let l = String.length s in
+    if l = 0 then f0 () else f1 (String.get s 0) (String.sub s 1 (l-1)))
+
+                                                     (fun _ ->
+                                                     "badcommand")
+                                                     (fun a0 s1 ->
+                                                     (* If this appears, you're using Ascii internals. Please don't *)
+ (fun f c ->
+  let n = Char.code c in
+  let h i = (n land (1 lsl i)) <> 0 in
+  f (h 0) (h 1) (h 2) (h 3) (h 4) (h 5) (h 6) (h 7))
+                                                       (fun b7 b8 b9 b10 b11 b12 b13 b14 ->
+                                                       if b7
+                                                       then if b8
+                                                            then "badcommand"
+                                                            else if b9
+                                                                 then 
+                                                                   if b10
+                                                                   then 
+                                                                    "badcommand"
+                                                                   else 
+                                                                    if b11
+                                                                    then 
+                                                                    "badcommand"
+                                                                    else 
+                                                                    if b12
+                                                                    then 
+                                                                    if b13
+                                                                    then 
+                                                                    if b14
+                                                                    then 
+                                                                    "badcommand"
+                                                                    else 
+                                                                    ((* If this appears, you're using String internals. Please don't *)
+ (fun f0 f1 s ->
+    let l = String.length s in
+    if l = 0 then f0 () else f1 (String.get s 0) (String.sub s 1 (l-1)))
+
+                                                                    (fun _ ->
+                                                                    "badcommand")
+                                                                    (fun a1 s2 ->
+                                                                    (* If this appears, you're using Ascii internals. Please don't *)
+ (fun f c ->
+  let n = Char.code c in
+  let h i = (n land (1 lsl i)) <> 0 in
+  f (h 0) (h 1) (h 2) (h 3) (h 4) (h 5) (h 6) (h 7))
+                                                                    (fun b15 b16 b17 b18 b19 b20 b21 b22 ->
+                                                                    if b15
+                                                                    then 
+                                                                    "badcommand"
+                                                                    else 
+                                                                    if b16
+                                                                    then 
+                                                                    if b17
+                                                                    then 
+                                                                    if b18
+                                                                    then 
+                                                                    if b19
+                                                                    then 
+                                                                    "badcommand"
+                                                                    else 
+                                                                    if b20
+                                                                    then 
+                                                                    if b21
+                                                                    then 
+                                                                    if b22
+                                                                    then 
+                                                                    "badcommand"
+                                                                    else 
+                                                                    ((* If this appears, you're using String internals. Please don't *)
+ (fun f0 f1 s ->
+    let l = String.length s in
+    if l = 0 then f0 () else f1 (String.get s 0) (String.sub s 1 (l-1)))
+
+                                                                    (fun _ ->
+                                                                    "badcommand")
+                                                                    (fun a2 s3 ->
+                                                                    (* If this appears, you're using Ascii internals. Please don't *)
+ (fun f c ->
+  let n = Char.code c in
+  let h i = (n land (1 lsl i)) <> 0 in
+  f (h 0) (h 1) (h 2) (h 3) (h 4) (h 5) (h 6) (h 7))
+                                                                    (fun b23 b24 b25 b26 b27 b28 b29 b30 ->
+                                                                    if b23
+                                                                    then 
+                                                                    "badcommand"
+                                                                    else 
+                                                                    if b24
+                                                                    then 
+                                                                    "badcommand"
+                                                                    else 
+                                                                    if b25
+                                                                    then 
+                                                                    if b26
+                                                                    then 
+                                                                    "badcommand"
+                                                                    else 
+                                                                    if b27
+                                                                    then 
+                                                                    "badcommand"
+                                                                    else 
+                                                                    if b28
+                                                                    then 
+                                                                    if b29
+                                                                    then 
+                                                                    if b30
+                                                                    then 
+                                                                    "badcommand"
+                                                                    else 
+                                                                    ((* If this appears, you're using String internals. Please don't *)
+ (fun f0 f1 s ->
+    let l = String.length s in
+    if l = 0 then f0 () else f1 (String.get s 0) (String.sub s 1 (l-1)))
+
+                                                                    (fun _ ->
+                                                                    "badcommand")
+                                                                    (fun a3 s4 ->
+                                                                    (* If this appears, you're using Ascii internals. Please don't *)
+ (fun f c ->
+  let n = Char.code c in
+  let h i = (n land (1 lsl i)) <> 0 in
+  f (h 0) (h 1) (h 2) (h 3) (h 4) (h 5) (h 6) (h 7))
+                                                                    (fun b31 b32 b33 b34 b35 b36 b37 b38 ->
+                                                                    if b31
+                                                                    then 
+                                                                    if b32
+                                                                    then 
+                                                                    "badcommand"
+                                                                    else 
+                                                                    if b33
+                                                                    then 
+                                                                    if b34
+                                                                    then 
+                                                                    "badcommand"
+                                                                    else 
+                                                                    if b35
+                                                                    then 
+                                                                    "badcommand"
+                                                                    else 
+                                                                    if b36
+                                                                    then 
+                                                                    if b37
+                                                                    then 
+                                                                    if b38
+                                                                    then 
+                                                                    "badcommand"
+                                                                    else 
+                                                                    ((* If this appears, you're using String internals. Please don't *)
+ (fun f0 f1 s ->
+    let l = String.length s in
+    if l = 0 then f0 () else f1 (String.get s 0) (String.sub s 1 (l-1)))
+
+                                                                    (fun _ ->
+                                                                    "badcommand")
+                                                                    (fun a4 s5 ->
+                                                                    (* If this appears, you're using Ascii internals. Please don't *)
+ (fun f c ->
+  let n = Char.code c in
+  let h i = (n land (1 lsl i)) <> 0 in
+  f (h 0) (h 1) (h 2) (h 3) (h 4) (h 5) (h 6) (h 7))
+                                                                    (fun b39 b40 b41 b42 b43 b44 b45 b46 ->
+                                                                    if b39
+                                                                    then 
+                                                                    "badcommand"
+                                                                    else 
+                                                                    if b40
+                                                                    then 
+                                                                    if b41
+                                                                    then 
+                                                                    "badcommand"
+                                                                    else 
+                                                                    if b42
+                                                                    then 
+                                                                    "badcommand"
+                                                                    else 
+                                                                    if b43
+                                                                    then 
+                                                                    if b44
+                                                                    then 
+                                                                    if b45
+                                                                    then 
+                                                                    if b46
+                                                                    then 
+                                                                    "badcommand"
+                                                                    else 
+                                                                    ((* If this appears, you're using String internals. Please don't *)
+ (fun f0 f1 s ->
+    let l = String.length s in
+    if l = 0 then f0 () else f1 (String.get s 0) (String.sub s 1 (l-1)))
+
+                                                                    (fun _ ->
+                                                                    run_render
+                                                                    rest)
+                                                                    (fun _ _ ->
+                                                                    "badcommand")
+                                                                    s5)
+                                                                    else 
+                                                                    "badcommand"
+                                                                    else 
+                                                                    "badcommand"
+                                                                    else 
+                                                                    "badcommand"
+                                                                    else 
+                                                                    "badcommand")
+                                                                    a4)
+                                                                    s4)
+                                                                    else 
+                                                                    "badcommand"
+                                                                    else 
+                                                                    "badcommand"
+                                                                    else 
+                                                                    "badcommand"
+                                                                    else 
+                                                                    "badcommand")
+                                                                    a3)
+                                                                    s3)
+                                                                    else 
+                                                                    "badcommand"
+                                                                    else 
+                                                                    "badcommand"
+                                                                    else 
+                                                                    "badcommand")
+                                                                    a2)
+                                                                    s2)
+                                                                    else 
+                                                                    "badcommand"
+                                                                    else 
+                                                                    "badcommand"
+                                                                    else 
+                                                                    "badcommand"
+                                                                    else 
+                                                                    "badcommand"
+                                                                    else 
+                                                                    "badcommand")
+                                                                    a1)
+                                                                    s1)
+                                                                    else 
+                                                                    "badcommand"
+                                                                    else 
+                                                                    "badcommand"
+                                                                 else 
+                                                                   "badcommand"
+                                                       else "badcommand")
+                                                       a0)
+                                                     s0)
+                                        else "badcommand"
+                                   else "badcommand"
+                              else "badcommand"
                else if b1
                     then "badcommand"
                     else if b2
